@@ -12,2750 +12,2478 @@ Definition show_fres (r : fres) : string :=
   end.
 Definition check (rs : list rune) : string := digest (show_fres (format_res rs)).
 Definition full (rs : list rune) : string := show_fres (format_res rs).
-Eval vm_compute in ("<<<M3649>>>" ++ check (runes_of_ascii "// top
+Eval vm_compute in ("<<<M3658>>>" ++ check (runes_of_ascii "// top
 options // c0
-{ ArrayPrefixLenType
-    // c2
-= u16 // c4
-; // c5
-FixedStringPadFromLeft
-    // c6
-= true
-    // c8
-; JavaPackage // c10
-=
-    // c11
-""com.example.msg"" // c12a
-  // c12b
-; GoPackage = // c15a
-  // c15b
-""msg"" // c16a
-  // c16b
+{ // c1a
+  // c1b
+ArrayPrefixLenType // c2
+= // c3a
+  // c3b
+u16
+    // c4
+; FixedStringPadFromLeft =
+    // c7
+true // c8a
+  // c8b
+; // c9a
+  // c9b
+JavaPackage = // c11
+""com.example.msg""
+    // c12
+;
+    // c13
+GoPackage
+    // c14
+= ""msg""
+    // c16
 ;
     // c17
-GoModule
-    // c18
-= // c19a
-  // c19b
-""example.com/msg""
+GoModule // c18
+= ""example.com/msg""
     // c20
-;
-    // c21
-} // c22
-MetaData // c23a
-  // c23b
+; // c21a
+  // c21b
+}
+    // c22
+MetaData // c23
 Meta
     // c24
-{ u32 // c26a
-  // c26b
-SeqNum `sequence number` , // c29a
+{ // c25a
+  // c25b
+u32
+    // c26
+SeqNum
+    // c27
+`sequence number` , // c29a
   // c29b
-char[ // c30
-8 // c31
-] // c32a
+char[ 8 ] // c32a
   // c32b
-Symbol // c33a
-  // c33b
-`symbol` // c34a
-  // c34b
-, zchar[
-    // c36
-5
-    // c37
-] // c38
-ZSym // c39a
-  // c39b
+Symbol `symbol`
+    // c34
+, zchar[ // c36a
+  // c36b
+5 // c37a
+  // c37b
+] ZSym // c39
 `z symbol` // c40
-, string Note , // c44a
-  // c44b
-Symbol AltSymbol `alias of symbol`
+, string Note , // c44
+Symbol
+    // c45
+AltSymbol
+    // c46
+`alias of symbol`
     // c47
-,
-    // c48
-f64
-    // c49
-Price // c50a
-  // c50b
+, // c48a
+  // c48b
+f64 Price // c50
 , // c51
-}
-    // c52
-packet // c53a
-  // c53b
+} // c52
+packet
+    // c53
 Inner // c54a
   // c54b
 {
     // c55
-u8 // c56a
-  // c56b
-a , // c58a
-  // c58b
-i16
-    // c59
-b // c60a
-  // c60b
-, // c61a
+u8 a
+    // c57
+, // c58
+i16 // c59a
+  // c59b
+b , // c61a
   // c61b
 string // c62a
   // c62b
-c // c63a
-  // c63b
-, // c64a
-  // c64b
-} // c65a
-  // c65b
+c
+    // c63
+, } // c65
 packet
     // c66
-Inner2 // c67a
-  // c67b
-{ // c68
-u8 // c69a
+Inner2
+    // c67
+{ u8 // c69a
   // c69b
-a2 , // c71
-char[ 3 // c73
-]
-    // c74
-c2 , // c76a
-  // c76b
-} // c77
-packet
-    // c78
-Logon { u8 // c81
-x // c82
-, string
-    // c84
-user // c85
-, // c86
-repeat // c87a
-  // c87b
-u16 // c88
-codes
-    // c89
-,
-    // c90
+a2 // c70a
+  // c70b
+, // c71
+char[ // c72
+3 ] c2 // c75a
+  // c75b
+, } // c77
+packet Logon // c79a
+  // c79b
+{
+    // c80
+u8 // c81
+x , // c83
+string // c84
+user // c85a
+  // c85b
+, repeat // c87
+u16 // c88a
+  // c88b
+codes , // c90a
+  // c90b
 } // c91a
   // c91b
-packet // c92a
-  // c92b
-Logout { u16 reason
-    // c96
-,
-    // c97
-}
-    // c98
-packet Empty // c100
-{
-    // c101
-} // c102
-root // c103
 packet
-    // c104
-Msg { // c106a
-  // c106b
+    // c92
+Logout
+    // c93
+{ // c94a
+  // c94b
+u16 // c95
+reason // c96a
+  // c96b
+, // c97a
+  // c97b
+} packet
+    // c99
+Empty {
+    // c101
+}
+    // c102
+root packet // c104a
+  // c104b
+Msg
+    // c105
+{
+    // c106
 u8 // c107a
   // c107b
 su8 ,
     // c109
-uint8 luint8 // c111
-, // c112a
-  // c112b
-u16 // c113
-su16
-    // c114
-, // c115a
-  // c115b
-uint16 // c116
-luint16 ,
-    // c118
-u32 su32
-    // c120
+uint8 luint8 , // c112
+u16 su16 ,
+    // c115
+uint16 luint16
+    // c117
+, // c118
+u32 su32 // c120
 , // c121a
   // c121b
-uint32 // c122a
-  // c122b
-luint32
-    // c123
-, // c124
-u64 su64
-    // c126
-, uint64 // c128
-luint64
-    // c129
-, // c130
-i8
-    // c131
-si8
-    // c132
-, // c133a
-  // c133b
-int8 lint8
-    // c135
-, i16
-    // c137
-si16 // c138
+uint32 // c122
+luint32 // c123
+, u64 su64 // c126a
+  // c126b
+, // c127a
+  // c127b
+uint64 // c128
+luint64 // c129a
+  // c129b
+, i8 // c131a
+  // c131b
+si8 // c132a
+  // c132b
 ,
-    // c139
-int16 // c140a
-  // c140b
-lint16 // c141
-, // c142a
-  // c142b
-i32 si32 // c144
-, // c145
-int32 // c146
-lint32 // c147a
-  // c147b
-, // c148
-i64 // c149
-si64 , // c151a
-  // c151b
+    // c133
+int8 lint8 , // c136
+i16 // c137a
+  // c137b
+si16 , // c139
+int16 // c140
+lint16
+    // c141
+, i32
+    // c143
+si32 ,
+    // c145
+int32 lint32 , i64 si64 , // c151
 int64
     // c152
-lint64 // c153
-, f32 // c155a
-  // c155b
-sf32 , float32 lfloat32 // c159a
-  // c159b
+lint64 , f32 sf32
+    // c156
+, float32 // c158
+lfloat32
+    // c159
 , // c160a
   // c160b
 f64
     // c161
-sf64 // c162
-, // c163
+sf64
+    // c162
+, // c163a
+  // c163b
 float64 // c164a
   // c164b
-lfloat64 // c165a
-  // c165b
-, // c166
-char[ // c167a
-  // c167b
-6 ]
+lfloat64 , // c166
+char[
+    // c167
+6 // c168a
+  // c168b
+]
     // c169
-fsplain // c170a
-  // c170b
-,
-    // c171
+fsplain , // c171
 @leftPad
     // c172
-( // c173
-'0' // c174a
-  // c174b
-) char[
-    // c176
-4 // c177
+( // c173a
+  // c173b
+'0'
+    // c174
+)
+    // c175
+char[ // c176
+4 // c177a
+  // c177b
 ]
     // c178
 fs0 // c179a
   // c179b
-, // c180
-@rightPad (
+, // c180a
+  // c180b
+@rightPad // c181
+(
     // c182
-'0' ) // c184a
+'0'
+    // c183
+) // c184a
   // c184b
 char[ // c185a
   // c185b
 5
     // c186
-] fs1 // c188
-,
-    // c189
+] // c187
+fs1 // c188a
+  // c188b
+, // c189
 @leftPad ( // c191a
   // c191b
-' ' ) // c193a
-  // c193b
-char[ // c194
-6 // c195
-] // c196a
-  // c196b
-fs2 // c197
-, // c198
-@rightPad // c199
-( // c200
 ' '
-    // c201
-)
-    // c202
-char[
+    // c192
+) char[ // c194a
+  // c194b
+6 // c195a
+  // c195b
+] fs2
+    // c197
+, // c198a
+  // c198b
+@rightPad ( ' ' // c201
+) char[
     // c203
-7
-    // c204
-] fs3
-    // c206
+7 ] fs3 // c206
 ,
     // c207
-@leftPad ( // c209a
-  // c209b
-'\x00' ) // c211
-char[ // c212a
-  // c212b
-8 // c213a
-  // c213b
-]
-    // c214
-fs4 // c215
-, // c216a
-  // c216b
-@rightPad // c217
+@leftPad // c208
+(
+    // c209
+'\x00'
+    // c210
+)
+    // c211
+char[ 8 ] fs4 // c215a
+  // c215b
+, @rightPad // c217
 (
     // c218
 '\x00' // c219
-) char[ // c221a
-  // c221b
-9 ] // c223a
-  // c223b
-fs5
-    // c224
-,
-    // c225
+) // c220a
+  // c220b
+char[ // c221
+9 // c222a
+  // c222b
+]
+    // c223
+fs5 // c224
+, // c225
 @leftPad
     // c226
-( ) char[
+( ) // c228a
+  // c228b
+char[
     // c229
-10 ]
-    // c231
-fs6 // c232
+10 // c230a
+  // c230b
+] // c231a
+  // c231b
+fs6
+    // c232
 , // c233a
   // c233b
-@rightPad ( )
-    // c236
-char[
+@rightPad
+    // c234
+( // c235
+) char[
     // c237
 11
     // c238
 ] // c239
-fs7 ,
-    // c241
-zchar[
-    // c242
-7 // c243a
-  // c243b
-] // c244
-fz // c245
-,
-    // c246
-@leftPad // c247a
-  // c247b
-( '0' // c249a
-  // c249b
-) // c250
-zchar[
-    // c251
-3 // c252a
-  // c252b
-] fzl0 ,
-    // c255
-string
-    // c256
-s1
+fs7
+    // c240
+, // c241
+zchar[ // c242a
+  // c242b
+7 // c243
+] fz // c245
+, // c246a
+  // c246b
+@leftPad
+    // c247
+( // c248
+'0'
+    // c249
+) // c250a
+  // c250b
+zchar[ // c251
+3 ] // c253a
+  // c253b
+fzl0 , string s1
     // c257
-`doc` // c258
+`doc`
+    // c258
+, // c259
+char[] // c260
+s2
+    // c261
+, // c262a
+  // c262b
+Inner // c263a
+  // c263b
 ,
-    // c259
-char[] s2 // c261
-, // c262
-Inner , // c264a
-  // c264b
-Sub // c265a
-  // c265b
-{
-    // c266
-u8 q , // c269
-string w
-    // c271
-, // c272
-Deep {
-    // c274
-u16 // c275
-z // c276
-, // c277
-repeat i32 zs
-    // c280
-, // c281a
-  // c281b
-} // c282a
-  // c282b
-, } ,
-    // c285
-repeat u8 // c287
-ru8 // c288
-, // c289a
-  // c289b
-repeat // c290
-u16 ru16 // c292a
-  // c292b
-, repeat
+    // c264
+Sub // c265
+{ // c266a
+  // c266b
+u8 // c267a
+  // c267b
+q
+    // c268
+, // c269a
+  // c269b
+string // c270a
+  // c270b
+w // c271a
+  // c271b
+,
+    // c272
+Deep
+    // c273
+{ u16
+    // c275
+z // c276a
+  // c276b
+, // c277a
+  // c277b
+repeat // c278a
+  // c278b
+i32 zs // c280
+,
+    // c281
+}
+    // c282
+, // c283a
+  // c283b
+} // c284a
+  // c284b
+, repeat // c286a
+  // c286b
+u8
+    // c287
+ru8
+    // c288
+,
+    // c289
+repeat
+    // c290
+u16 ru16
+    // c292
+, // c293
+repeat
     // c294
-u32 ru32
+u32 // c295a
+  // c295b
+ru32
     // c296
-, repeat // c298a
-  // c298b
-u64 ru64 // c300a
-  // c300b
-, // c301a
+,
+    // c297
+repeat // c298
+u64 // c299
+ru64 , // c301a
   // c301b
-repeat // c302
-i8
-    // c303
-ri8
-    // c304
-, // c305
-repeat i16
-    // c307
-ri16 // c308
+repeat i8 ri8 , repeat // c306
+i16 // c307a
+  // c307b
+ri16
+    // c308
 , repeat // c310a
   // c310b
-i32 ri32 // c312
+i32 // c311a
+  // c311b
+ri32 , // c313
+repeat // c314a
+  // c314b
+i64 ri64 // c316a
+  // c316b
 ,
-    // c313
-repeat
-    // c314
-i64 // c315
-ri64 , repeat
-    // c318
-f32 // c319a
-  // c319b
-rf32 , repeat // c322
-f64 rf64 // c324a
-  // c324b
-, // c325
-repeat // c326a
-  // c326b
-string rstr // c328a
-  // c328b
+    // c317
+repeat // c318
+f32
+    // c319
+rf32 // c320
+, // c321
+repeat // c322
+f64 // c323a
+  // c323b
+rf64 // c324
+,
+    // c325
+repeat // c326
+string
+    // c327
+rstr
+    // c328
 , // c329
-repeat // c330a
-  // c330b
+repeat
+    // c330
 char[] // c331a
   // c331b
-rstr2 // c332a
-  // c332b
-, repeat
-    // c334
-char[
-    // c335
+rstr2 , // c333
+repeat // c334
+char[ // c335a
+  // c335b
 3 ] // c337a
   // c337b
-rfs // c338a
-  // c338b
-, repeat // c340
-zchar[ // c341a
-  // c341b
-3 ] // c343
-rfz
-    // c344
-, // c345a
-  // c345b
-repeat // c346a
-  // c346b
+rfs , repeat
+    // c340
+zchar[ // c341
+3 ] rfz ,
+    // c345
+repeat // c346
 Inner2
     // c347
-, // c348a
-  // c348b
-repeat
-    // c349
-Grp // c350a
-  // c350b
-{
-    // c351
-u8 k
-    // c353
-, // c354
-char[ // c355a
-  // c355b
+, // c348
+repeat // c349a
+  // c349b
+Grp
+    // c350
+{ // c351a
+  // c351b
+u8 // c352
+k // c353a
+  // c353b
+,
+    // c354
+char[ // c355
 2
     // c356
-] // c357a
-  // c357b
+]
+    // c357
 v // c358
-, }
-    // c360
-, SeqNum // c362
-, // c363a
-  // c363b
-SeqNum // c364a
-  // c364b
-seq2 // c365a
+, // c359a
+  // c359b
+} , // c361a
+  // c361b
+SeqNum // c362a
+  // c362b
+, // c363
+SeqNum seq2 // c365a
   // c365b
-, repeat // c367
-SeqNum // c368a
+, // c366
+repeat SeqNum // c368a
   // c368b
 seqs , // c370
-Symbol
-    // c371
-, AltSymbol // c373a
-  // c373b
-alt , ZSym // c376
-, // c377
-Note , // c379
-repeat
-    // c380
+Symbol , // c372
+AltSymbol
+    // c373
+alt
+    // c374
+,
+    // c375
+ZSym // c376
+,
+    // c377
+Note // c378a
+  // c378b
+, // c379a
+  // c379b
+repeat // c380
 Symbol // c381a
   // c381b
-syms // c382a
-  // c382b
+syms // c382
 , // c383
-Price // c384a
-  // c384b
+Price
+    // c384
 px // c385a
   // c385b
-, u16 // c387a
-  // c387b
-MsgType // c388a
-  // c388b
-, // c389a
-  // c389b
-u32 // c390a
-  // c390b
-BodyLen
-    // c391
-@lengthOf( Body ) , // c395
-match // c396
-MsgType // c397
-as
-    // c398
-Body // c399a
-  // c399b
+, // c386a
+  // c386b
+u16
+    // c387
+MsgType // c388
+, // c389
+u32
+    // c390
+BodyLen @lengthOf( Body // c393a
+  // c393b
+)
+    // c394
+, // c395
+match MsgType as // c398a
+  // c398b
+Body
+    // c399
 { // c400a
   // c400b
-1 // c401a
-  // c401b
-:
-    // c402
-Logon // c403
-,
-    // c404
-[
-    // c405
-2
-    // c406
+1 : // c402
+Logon // c403a
+  // c403b
+, // c404
+[ 2 // c406a
+  // c406b
 , // c407a
   // c407b
-3 ] // c409a
-  // c409b
-: // c410
-Logout , // c412
-7 // c413
-: Logon
-    // c415
-,
-    // c416
-9 : Empty , } , // c422a
-  // c422b
-u32 Checksum @calculatedFrom( // c425a
+3
+    // c408
+]
+    // c409
+:
+    // c410
+Logout
+    // c411
+, 7 // c413
+: Logon , // c416
+9 : // c418
+Empty // c419
+, // c420a
+  // c420b
+}
+    // c421
+, u32 // c423a
+  // c423b
+Checksum // c424
+@calculatedFrom( // c425a
   // c425b
 ""CRC32""
     // c426
-) , // c428a
-  // c428b
-}
+) , }
     // c429
 ")).
-Eval vm_compute in ("<<<M4566>>>" ++ check (runes_of_ascii "
-
-  packet
-	metadata{
-	zchar[
-10	] i64_
-`say ""hi""`
-	, repeat// " ++ [27880; 37322]%N ++ runes_of_ascii "
-    Header
-        // a // b
-    // " ++ [128512]%N ++ runes_of_ascii " emoji
-    uint8x
-
-    ,	@lengthOf(
-	falsey	)
-
-    int8  _x @calculatedFrom( ""x y""
-) `{ , }`  // c
-,
-	stringy metadata `a\` // " ++ [128512]%N ++ runes_of_ascii " emoji
-, 	 // " ++ [128512]%N ++ runes_of_ascii " emoji
-    	@lengthOf(
-	Packet
-)
-i64_{
-	match
-
-crc
-	as 
-Header  {
-	[
-0
-,
-	0123456789
-]: // c
-  Foo ,
-
-    ""abc"" 
-	// trailing space 
-
-// @lengthOf(
-: pack
-,  }
-    ,match
-
-    int
-	as
-	charz
-    { 1 
-	    /// triple
-  	: packetx
-
-,  7
-
-: MetaDataX
-    ,  // " ++ [128512]%N ++ runes_of_ascii " emoji
-
-	7
-
-: a1  007 :zchar
-, ""CRC32"" 
-:
-    stringy ,
-
-[
-""\" ++ [233]%N ++ runes_of_ascii """, ""CRC32"" 
-]
-:
-i8i8  } 
-  //
-//x
-      ,	pack
-    /// triple
-  	`doc` ,
-
-tag {
-	_x@calculatedFrom( ""CRC32""
-	) `
-`  ,
-repeat  asx	`{ , }`/// triple
-
-, i32
-_x	//x
-@calculatedFrom(
-
-""\n""	)	`u8 x,`
-
-, } ,
-
-    }  ,
-f32a
-
-@lengthOf(
-    chars	// trailing space 
-
-	)
-, 
-string
-Packet
-,
-    @leftPad	(
-' ' ) 
-@lengthOf( u8x)	// trailing space 
-	a1// " ++ [128512]%N ++ runes_of_ascii " emoji
-	@calculatedFrom(
-    ""x y""
-	)	`doc`
-,	options1 ,body	`{ , }` ,
-
-    }
-    MetaData Foo
-	{
-uint8
-	Z9_	`{ , }` 
-,} 
-packet
-Header
-
-    {pack
-
-{	// trailing space 
-	leftPad { u128
-	i64_
-	, 
-zchar[ 
-7
-        // @lengthOf(
-    // `tick` ""quote"" 'q'
-    	]
-i64_
-
-    @calculatedFrom( ""packet""
-)	// packet A { u8 x, }
-	`line1
-line2` 	 //x
-, //
-
-  metadata
-
-    Logon ,
-char[
-
-    10	// packet A { u8 x, }
-  ]asx 
-@lengthOf( uint8x )
-
-    `it's`, }/// triple
-, }
-,
-    @calculatedFrom(
-
-    ""a\\""
-    )  Logon
-    @lengthOf(
-uint8x)	`
-`
-
-    ,
-
-    int64 msg_type
-    ,
-
-    metadata _x
+Eval vm_compute in ("<<<M3901>>>" ++ check (runes_of_ascii "packet Logon {
+    repeat string a1 `crlf
+        line`,
+    @lengthOf(Pad)
+    match Pad as u8x {
+        4294967296 : i8i8,
+    },
+    asx a1,
+    // a // b
     // @lengthOf(
-    /// triple
-,@leftPad
-() trueish
-{
-	Header
-    { 
-	//x
-    // `tick` ""quote"" 'q'
-    uint8x  { char[ 0123456789 
-]leftPad  @calculatedFrom(  """ ++ [233]%N ++ runes_of_ascii "t" ++ [233]%N ++ runes_of_ascii """
-
-)
-`" ++ [28040; 24687; 31867; 22411]%N ++ runes_of_ascii "`
-
-,
-} ,	// " ++ [128512]%N ++ runes_of_ascii " emoji
-
-  char[// a // b
-1
-    ] 
-    // c
-	// packet A { u8 x, }
-    	asx  @calculatedFrom(
-""it's"" ) , roots
-,	}	,
-    } ,
-zchar[ 
-// " ++ [128512]%N ++ runes_of_ascii " emoji
-	255 ] Packet , // `tick` ""quote"" 'q'
-    repeat	i8i8
-	,
-
-    repeat	float64
-
-    u8x
-    ,
-
-    @calculatedFrom(	""" ++ [233]%N ++ runes_of_ascii "t" ++ [233]%N ++ runes_of_ascii """	)
-
-asx @calculatedFrom(
-
-    ""a\""b""
-
-)	, 
-}
-MetaData 
-    /// triple
-  roots  // packet A { u8 x, }
-    { }
-")).
-Eval vm_compute in ("<<<M911>>>" ++ check (runes_of_ascii "
-root
-packet
-    u
-{ @tag(
-    4294967296	) // packet A { u8 x, }
-@rightPad( '0' ) @tag(
-    7 ) repeat x , char[ // packet A { u8 x, }
-42	]
-charz
-    @lengthOf(Z9_) `line1
-line2`,zchar[ 65535 ] // `tick` ""quote"" 'q'
-crc @lengthOf( string_// a // b
-),
-    char[ 65535
-]// trailing space 
-trueish `crlf
-line` ,repeat x_y_z leftPad `" ++ [233]%N ++ runes_of_ascii "` ,T
-@calculatedFrom(
-""\n"")
-,  A ,
-char[]  crc @lengthOf( matchKey ) , repeat
-// @lengthOf(
-/// triple
-rootA // @lengthOf(
-`tab	here` , @rightPad
-//
-//	t
-( ' ' ) match roots as charz {
-""{,}""	: len ,
-    """" :
-Z9_ ,// trailing space 
-""abc""
-    : roots
-    ,
-} ,} packet _x {	@leftPad(// a // b
-'\x00' )
-    match tag	as u8x { """ ++ [128512]%N ++ runes_of_ascii """ : asx // packet A { u8 x, }
-, 4294967296
-:
-// a // b
-// `tick` ""quote"" 'q'
-u,
-    [
-""" ++ [28040; 24687]%N ++ runes_of_ascii """ , 7 , 7 ,
-    ""{,}"" , ""a	b"" //x
-]// `tick` ""quote"" 'q'
-:
-metadata
-    ,} ,
-match
-uint8x	as // a // b
-x_y_z // c
-{	[ 3 //x
-, 42
-    , // @lengthOf(
-""\" ++ [233]%N ++ runes_of_ascii """ ,""\" ++ [233]%N ++ runes_of_ascii """,
-""a	b"",007 ,42// packet A { u8 x, }
-, ""{,}"" // c
-]
-: u128
-    // trailing space 
-    , //	t
-""a\\""
-    : Foo
-,} ,i16 metadata,@leftPad ( ' '	)  u8 Logon
-// c
-// @lengthOf(
-`// not a comment` , Pad {
-zchar[  0//x
-] int @calculatedFrom( ""it's"" ) , } ,char[
-65535
-    // trailing space 
-    ]
+    @lengthOf(body)
     //x
-    i8i8`crlf
-line` , string_
-, } packet x_y_z {u8 uint8x, match pack as Pad
-    { ""it's"" : asx ""`tick`"" :a1 , [  0
-    ] : // `tick` ""quote"" 'q'
-u128
-    , 42 : o
-    ,	""" ++ [128512]%N ++ runes_of_ascii """  :	tag // " ++ [27880; 37322]%N ++ runes_of_ascii "
-,	} , repeat
-i8
-    // packet A { u8 x, }
-    MetaDataX,@lengthOf( charz ) asx @lengthOf(
-    A
-) ,  @calculatedFrom(
-""{,}"" )@lengthOf( leftPad )@rightPad (
-) stringy
-    // @lengthOf(
-    Z9_ `` ,
-calculatedFrom `" ++ [28040; 24687; 31867; 22411]%N ++ runes_of_ascii "`, }	packet // " ++ [27880; 37322]%N ++ runes_of_ascii "
-matchKey {@calculatedFrom( ""\n"" ) f32 msg_type , zchar[	10	] chars ,}
-")).
-Eval vm_compute in ("<<<M1092>>>" ++ check (runes_of_ascii "packet	crc {Logon  {u64 Z9_
-// " ++ [27880; 37322]%N ++ runes_of_ascii "
-// c
-@lengthOf(A
-) , f64 int,//
-match BodyLength as MetaDataX // a // b
-{
-""" ++ [28040; 24687]%N ++ runes_of_ascii """ :
-msg_type ,00 :
-falsey, 00 :
-tag // @lengthOf(
+    msg_type int,
+    tag `line1
+        line2`,
+    repeat Z9_ {
+        u16 packetx @calculatedFrom(""it's""),
+    },
+    @lengthOf(Logon)
+    // " ++ [128512]%N ++ runes_of_ascii " emoji
+    @rightPad()
+    @calculatedFrom(""" ++ [233]%N ++ runes_of_ascii "t" ++ [233]%N ++ runes_of_ascii """)
+    repeat roots u128,
+    @calculatedFrom(""{,}"")
+    chars {
+        match roots as Foo {
+            10 : trueish,
+        },
+    },
+    i8i8,
+    @calculatedFrom(""x y"")
+    @calculatedFrom(""a\""b"")
+    repeat Z9_ {
+        f32a msg_type,
+        repeat o {
+            // " ++ [128512]%N ++ runes_of_ascii " emoji
+            // @lengthOf(
+            zchar[0] charz @calculatedFrom(""CRC32""),
+        },
+    },
+}
+
+root packet BodyLength {
+    calculatedFrom {
+        char[] x @calculatedFrom(""\n""),// @lengthOf(
+        _x @calculatedFrom(""`tick`""),
+        repeat u128,
+        float Packet `" ++ [28040; 24687; 31867; 22411]%N ++ runes_of_ascii "`,
+    },
+    repeat Foo {
+        uint64 a1,
+    },/// triple
+    repeat char[42] matchKey `it's`,
+    lengthOf {
+        // " ++ [27880; 37322]%N ++ runes_of_ascii "
+        u128 trueish `// not a comment`,
+        match chars as MetaDataX {
+            00 : x_y_z,
+            1 : trueish,
+            [0123456789] : calculatedFrom,
+            [
+                ""CRC32"", ""\" ++ [233]%N ++ runes_of_ascii """, ""// no comment"", ""it's"", ""packet"",
+                007
+            ] : Pad,
+        },
+    },
+    repeat char[] Logon,
+    @leftPad('0')
+    f32 Pad @calculatedFrom(""CRC32""),
+    @lengthOf(BodyLength)
+    options1 @calculatedFrom(""`tick`""),
+    A {
+        // " ++ [27880; 37322]%N ++ runes_of_ascii "
+        //	t
+        uint8 charz `u8 x,`,
+        falsey x `line1
+                line2`,
+        repeat int8 Packet,
+        zchar[1] float,
+    },
+    char[65535] matchKey @calculatedFrom(""x y""),
+    @lengthOf(o)
+    match chars as As {
+        1 : f32a,
+    },
+}
+
+packet int {
+    @calculatedFrom(""// no comment"")
+    @rightPad()
+    @calculatedFrom(""" ++ [233]%N ++ runes_of_ascii "t" ++ [233]%N ++ runes_of_ascii """)
+    roots _x `say ""hi""`,// `tick` ""quote"" 'q'
+}
+
+options {
+    o = ""{,}""
+    Pad = 255;
+}// " ++ [27880; 37322]%N)).
+Eval vm_compute in ("<<<M4378>>>" ++ check (runes_of_ascii "root packet options1 {
+    @rightPad('0')
+    u64 string_ `a\`,
+    @lengthOf(u128)
+    @tag(7)
+    i16 o,
+    repeat uint8 a1,
+    @lengthOf(msg_type)
+    repeat float64 Z9_ `two words`,
+    match metadata as Logon {
+        [""" ++ [128512]%N ++ runes_of_ascii """, 42] : A,
+    },
+    BodyLength len,
+    // a // b
+}
+
+packet zchar {
+    string_ lengthOf,
+    match x as Logon {
+        """ ++ [28040; 24687]%N ++ runes_of_ascii """ : calculatedFrom,
+        """ ++ [233]%N ++ runes_of_ascii "t" ++ [233]%N ++ runes_of_ascii """ : roots,
+        [255] : falsey,
+        255 : T,
+        // packet A { u8 x, }
+    },
+    repeat charz,
+    @calculatedFrom(""it's"")
+    @calculatedFrom(""\n"")
+    @rightPad(' ')
+    int32 rootA,
+    i64_ leftPad,
+    roots,
+    char[] msg_type `" ++ [233]%N ++ runes_of_ascii "`,
+    pack @calculatedFrom(""// no comment""),
+    @rightPad(' ')
+    repeat leftPad,
+    int64 lengthOf,
+}// trailing space 
+
+packet msg_type {
+    @lengthOf(Z9_)
+    repeat trueish {
+        // trailing space 
+        stringy `{ , }`,
+        u64 calculatedFrom @calculatedFrom(""it's""),
+        char[10] crc,
+    },
+    match f32a as Logon {
+        // @lengthOf(
+        ""abc"" : BodyLength,
+        [0, 42] : Header,
+        007 : Z9_,
+        ""a\""b"" : chars,
+    },
+    @lengthOf(roots)
+    options1 A `u8 x,`,
+    char[1] u128,
+    @lengthOf(x_y_z)
+    //x
+    //
+    MetaDataX @calculatedFrom(""1"") `{ , }`,
+    len {
+        x_y_z Logon,
+        matchKey repeatCount,
+        T {
+            i8 trueish @calculatedFrom(""\" ++ [233]%N ++ runes_of_ascii """) `tab	here`,
+        },
+        // a // b
+        repeat float zchar `two words`,
+    },
+    repeat u8 metadata `crlf
+    line`,
+    @calculatedFrom(""\" ++ [233]%N ++ runes_of_ascii """)
+    char[0] trueish @calculatedFrom(""""),//x
+    uint8 charz,
+}
+
+MetaData a1 {
+    f32 trueish `line1
+    line2`,
+    string uint8x `" ++ [28040; 24687; 31867; 22411]%N ++ runes_of_ascii "`,
+    i32 tag,
+    stringy zchar `" ++ [28040; 24687; 31867; 22411]%N ++ runes_of_ascii "`,
+}")).
+Eval vm_compute in ("<<<M120>>>" ++ check (runes_of_ascii "root packet // c
+falsey { roots { repeat x_y_z ,
+} , char[] T `
+` , char[	3 ]T/// triple
+,zchar { repeat
+zchar[ 65535 ]
+    rootA  `tab	here`
+    , int32 leftPad , }
 ,
-""it's"": options1, 007
+// packet A { u8 x, }
+// `tick` ""quote"" 'q'
+repeat
+    Packet
     //	t
-    : len ,65535 :
-    falsey , } ,	repeat char[] int  ,//x
-}, }
-root packet	repeatCount { }packet BodyLength{
-stringy // trailing space 
-{	len	`
-`,
-    }
-    ,  repeat i32 int // a // b
-,
-match Foo as crc
-// trailing space 
-/// triple
-{
-0: i8i8, 3 : // " ++ [27880; 37322]%N ++ runes_of_ascii "
-chars
-,
-}
-,repeat  x  { zchar[
-007 ]
-    chars
-,
-    repeat chars
-    // " ++ [27880; 37322]%N ++ runes_of_ascii "
-    {
-repeat stringy {x_y_z u128 , string options1 `two words`
-, char[  0123456789
-]body
-    `crlf
-line` ,  repeat int32 i64_
-, } ,
-char[ //x
-42]
-crc
-, Pad
-    `tab	here` , f32a
-{lengthOf f32a ,} , } ,} ,
-i8 stringy , f32a  {match body as body
-{
-""\" ++ [233]%N ++ runes_of_ascii """// packet A { u8 x, }
-:	u128	} ,
-    repeat
-string len
-    `a\`
-    , repeat As
-// c
-//	t
-asx `it's` , } , }	MetaData rootA {
-//
-//
-metadata metadata , A _x , u T , char[ // " ++ [128512]%N ++ runes_of_ascii " emoji
-3 ] a1 `line1
-line2` // " ++ [128512]%N ++ runes_of_ascii " emoji
-,
-zchar[ 4294967296  ] packetx
-    // @lengthOf(
-    `{ , }` , string
-Logon `" ++ [233]%N ++ runes_of_ascii "` ,  } packet BodyLength
-    {@calculatedFrom( /// triple
-""\n""
-    )
-int8
-    a1
-    @lengthOf( falsey
-) , //
-@calculatedFrom( ""\" ++ [233]%N ++ runes_of_ascii """)@tag(0123456789
-    ) lengthOf , @tag( 007
-    // c
-    ) //
-match Logon // " ++ [27880; 37322]%N ++ runes_of_ascii "
-as f32a
-// @lengthOf(
-/// triple
-{ 0 :
-zchar // @lengthOf(
-, } ,@lengthOf( i8i8 ) match options1
-    //	t
-    as string_ { [""a\""b"" , 00 , /// triple
-4294967296, 4294967296
-, ""a	b"",1 ] :
-A
-}
-,}
-")).
-Eval vm_compute in ("<<<M896>>>" ++ check (runes_of_ascii "MetaData
-falsey { char[] f32a
-`" ++ [28040; 24687; 31867; 22411]%N ++ runes_of_ascii "` , u8x len
-/// triple
-// " ++ [128512]%N ++ runes_of_ascii " emoji
-`" ++ [233]%N ++ runes_of_ascii "`, char[] uint8x , f32 trueish
-, char[ 10 ] len `two words`,
-    rootA  int
-, }
-root
-packet
-    A{ Z9_, repeat MetaDataX
-    `it's` , @tag(
-007 )	repeat options1 A//	t
-,repeat x `line1
-line2` ,  MetaDataX
-    /// triple
-    @lengthOf( options1 ) `say ""hi""`	,
-}
-// trailing space 
-// " ++ [27880; 37322]%N ++ runes_of_ascii "
-root packet rootA{ @tag( 255
-) char[ 10 ]	Foo @lengthOf( metadata) ``
-//
-// " ++ [128512]%N ++ runes_of_ascii " emoji
-,  @leftPad
-    (
-'\x00'
-) msg_type {
-//x
+    ,repeat
+char[ 00 ] body`" ++ [233]%N ++ runes_of_ascii "` , @tag(
+00// @lengthOf(
+) a1 i64_
+, i8i8 BodyLength `{ , }`
+    , match
+    crc as u8x
 // a // b
-float32 // packet A { u8 x, }
-Pad
+//	t
+{ [
+    // `tick` ""quote"" 'q'
+    0 ]:
+    matchKey , [ 0123456789,
+""a\\""
 ,
-    repeat uint32 Logon , },
-    @leftPad(
-    )
-stringy
-@calculatedFrom(
-""" ++ [128512]%N ++ runes_of_ascii """) `" ++ [28040; 24687; 31867; 22411]%N ++ runes_of_ascii "`  , @tag( 4294967296 )	@tag( 4294967296 ) @lengthOf( // trailing space 
-i8i8 ) BodyLength { zchar[42 ] u128 , crc
-    {char[
-255] Z9_ @lengthOf( int	)
+""abc"" ]:As , """ ++ [128512]%N ++ runes_of_ascii """ : tag, 7 :
+    u8x , 42 : f32a 00 :options1 } // trailing space 
+,} packet// " ++ [27880; 37322]%N ++ runes_of_ascii "
+MetaDataX{@tag( 42)@leftPad ( ) @leftPad
+    //x
+    ( )  body i64_ , } packet int{ @calculatedFrom(
+// " ++ [27880; 37322]%N ++ runes_of_ascii "
+//
+""" ++ [233]%N ++ runes_of_ascii "t" ++ [233]%N ++ runes_of_ascii """)
+@tag(42 ) @leftPad	( '\x00' ) repeat u8x ,  repeat len , @tag(	255	)match calculatedFrom as Z9_ {  ""CRC32"" :	len,""packet"" : falsey, [65535,
+42//x
+]// @lengthOf(
+: charz ,
+} // @lengthOf(
+,i8i8 ,match
+i8i8
+    as Foo // trailing space 
+{ ""a\\"" : x , } , @leftPad
+( ) char crc `say ""hi""` ,
+} options {	Pad =
+    zchar[ // trailing space 
+0
+]; pack="""" // c
+;
+    } root
+    packet lengthOf
+{ @leftPad ('0' ) A
+    // trailing space 
+    @calculatedFrom(
+// " ++ [27880; 37322]%N ++ runes_of_ascii "
+//
+""\" ++ [233]%N ++ runes_of_ascii """),@calculatedFrom( ""abc""// c
+)  repeat// c
+char[] a1 ,repeat int  trueish  , @rightPad(
+    '\x00'
+    )// a // b
+zchar[4294967296 ] _x ,repeat
+stringy //
+x	,@tag( 00  ) @lengthOf( int )  @tag( 0) u8	T	,
+@tag(1 ) @lengthOf(
+a1 ) @calculatedFrom( ""it's"" ) char[ 10 ] body ,  @lengthOf( f32a )
+    rootA
+@calculatedFrom(""{,}"" ), // " ++ [128512]%N ++ runes_of_ascii " emoji
+} 	 ")).
+Eval vm_compute in ("<<<M105>>>" ++ check (runes_of_ascii "packet
+uint8x {match Pad as// " ++ [128512]%N ++ runes_of_ascii " emoji
+repeatCount{ [0 ] :
+lengthOf ,[""// no comment"" ] :
+metadata ,} , metadata
+// trailing space 
+//
+, zchar[/// triple
+1
+] trueish//	t
+, @calculatedFrom(""a\""b"" ) match//x
+roots as f32a { 4294967296
+: i64_ , ""it's""
+: a1 , [
+    // trailing space 
+    00	,
+    0123456789 ] : As ,
+255 : Packet , ""{,}"" :
+T/// triple
+0
+    :
+falsey } ,
+    body @calculatedFrom( ""\n""
+    // trailing space 
+    ) , @calculatedFrom( """ ++ [128512]%N ++ runes_of_ascii """ )	@tag(
+10 ) char[ 10 ]
+    trueish `doc` ,	@tag( 255 ) repeat
+    Z9_ { asx chars`// not a comment` , } , @lengthOf(Packet ) u16
+    crc , }
+    // `tick` ""quote"" 'q'
+    options
+{ BodyLength =
+    i32 ; x// " ++ [128512]%N ++ runes_of_ascii " emoji
+=
+255
+    ; u= 3 } options
+{ }
+packet
+    calculatedFrom {	}
+    //x
+    root
+packet Header {
+    Pad {
+repeatCount ,  uint16 zchar , match msg_type
+as
+pack
+    /// triple
+    {	""abc"" : repeatCount , ""{,}"" : repeatCount""a	b""	: calculatedFrom},
+repeat string
+Logon `a\` , }
+,@lengthOf( x_y_z
+    ) match
+tag as repeatCount { 007 :  BodyLength , [
+    //	t
+    """ ++ [28040; 24687]%N ++ runes_of_ascii """ ] :
+BodyLength 42: string_ ""// no comment""
+// trailing space 
+/// triple
+: //
+Z9_ , 4294967296:
+    // " ++ [128512]%N ++ runes_of_ascii " emoji
+    _x
+    } , f64 u `it's` , zchar[ 00] f32a `doc` ,match
+    i64_
+    as Logon
+    { 4294967296// a // b
+:
+metadata ,
+}
+, char[1 ]Pad
+, zchar[  0123456789 ] float // @lengthOf(
+`` , }
+
+")).
+Eval vm_compute in ("<<<M134>>>" ++ check (runes_of_ascii "packet As { options1
+    { i16 o , } , i64 roots ,repeat char[] o
+    `a\` , @calculatedFrom( ""1""//x
+)  repeatCount	@lengthOf(/// triple
+falsey /// triple
+)
 // packet A { u8 x, }
 // " ++ [128512]%N ++ runes_of_ascii " emoji
-, } ,
+`a\` ,
+@lengthOf( stringy ) char[]	As
+`" ++ [233]%N ++ runes_of_ascii "` ,
+asx {match msg_type as
+chars { //	t
+00: metadata
+    // `tick` ""quote"" 'q'
+    , }
+    , i8 pack// c
+@calculatedFrom(
+    /// triple
+    ""x y"" )
+// trailing space 
+// a // b
+,//	t
+match u8x as	rootA{
+""1"": a1
+, [
+    // packet A { u8 x, }
+    4294967296 ]
+:msg_type
+//
+//x
+,
 }
-, @tag(//x
-10	)zchar[ 3 ] //	t
-stringy @calculatedFrom( ""\n""
-) // " ++ [27880; 37322]%N ++ runes_of_ascii "
-, a1
-    calculatedFrom ,
-} packet // packet A { u8 x, }
-u8x {
-x_y_z@lengthOf(lengthOf ) `crlf
-line` , match	uint8x
-    as  repeatCount { [
-""a\""b""
+, } // a // b
+, @calculatedFrom(
+""" ++ [233]%N ++ runes_of_ascii "t" ++ [233]%N ++ runes_of_ascii """ ) int16 roots ,
+    @tag(1 )	@leftPad ( '0' ) @rightPad // " ++ [27880; 37322]%N ++ runes_of_ascii "
+( '\x00'
+)i32 asx `tab	here`	,char Logon `u8 x,` // trailing space 
+,  }
+root	packet string_ {// @lengthOf(
+}packet Z9_ { int8 _x
+, repeat u8 uint8x `" ++ [233]%N ++ runes_of_ascii "`
+,
+float64 x_y_z @calculatedFrom(	""x y"" )
+    , @calculatedFrom(	""a\""b"" ) @calculatedFrom( ""a\""b"" )
+    int
+{zchar[255
+] //
+msg_type,  i64_
+    // trailing space 
+    {
+    stringy @lengthOf(x_y_z )
+    , u
+    options1
+    //
+    `tab	here` ,
+char[0123456789 ] msg_type ,float32
+    Foo `{ , }`
+    , } , } ,  @tag(	0
+)
+    @calculatedFrom( ""CRC32"" ) charz , @tag(
+    // @lengthOf(
+    4294967296 )
+i64 packetx ,  } //	t")).
+Eval vm_compute in ("<<<M4570>>>" ++ check (runes_of_ascii "// `tick` ""quote"" 'q'
+packet Pad {
+    pack {
+        char repeatCount @lengthOf(a1),
+        int16 Pad,
+        int16 calculatedFrom,
+    },
+    @lengthOf(tag)
+    uint16 repeatCount,
+    @tag(10)
+    char[007] trueish,
+    Header @calculatedFrom(""\n"") `
+    `,
+    i8i8 a1 `" ++ [28040; 24687; 31867; 22411]%N ++ runes_of_ascii "`,
+    u32 x @calculatedFrom(""abc""),
+    @lengthOf(crc)
+    //x
+    // " ++ [27880; 37322]%N ++ runes_of_ascii "
+    repeat char[3] charz `crlf
+    line`,
+}
+
+MetaData MetaDataX {
+    x As,
+}//	t
+
+root packet chars {
+}
+
+packet o {
+    @lengthOf(msg_type)
+    /// triple
+    repeat uint64 float,
+    a1,
+    repeatCount {
+        char[00] u8x @lengthOf(Header) `" ++ [28040; 24687; 31867; 22411]%N ++ runes_of_ascii "`,
+        len @lengthOf(options1),
+        x @lengthOf(pack) `two words`,
+        char[] leftPad `" ++ [233]%N ++ runes_of_ascii "`,
+    },
+    char[] stringy @lengthOf(msg_type) `u8 x,`,
+    @calculatedFrom(""it's"")
+    Header A,
+    char[1] f32a,
+}
+
+root packet packetx {
+    // a // b
+    repeat zchar[007] u8x,
+    @leftPad('0')
+    f64 stringy @lengthOf(lengthOf),
+    match T as o {
+        65535 : tag,
+        255 : o,
+        """" : stringy,
+    },
+    @lengthOf(calculatedFrom)
+    @leftPad('0')
+    @lengthOf(u)
+    f64 Logon @lengthOf(_x),
+}//	t")).
+Eval vm_compute in ("<<<M4542>>>" ++ check (runes_of_ascii "  packet  
+  // c
+  // @lengthOf(
+      int { 
+@lengthOf(//
+	pack
+)f64  asx @calculatedFrom( ""abc""  )
+,
+
+    @calculatedFrom(
+
+""\" ++ [233]%N ++ runes_of_ascii """	) f64//	t
+u
+`// not a comment`
+, 	 // " ++ [128512]%N ++ runes_of_ascii " emoji
+	@lengthOf(stringy )	@tag(
+
+3
+	)
+@rightPad
+(
+)
+
+repeat float32 rootA
+, msg_type
+@lengthOf( packetx
+    // " ++ [27880; 37322]%N ++ runes_of_ascii "
+    ) , @lengthOf(
+
+    repeatCount
+    )//x
+	  @calculatedFrom( ""`tick`"" 
+) 
+float
+lengthOf, 
+}
+
+packet 
+Pad
+	{ 
+repeat	uint8x	body `u8 x,`	, zchar
+	{
+
+u8
+trueish
+
+,
+
+float`
+`
+    ,} 
+,
+    @lengthOf( uint8x 
+) @lengthOf(  //x
+
+float 
+)
+
+    u64 
+T	@calculatedFrom(""// no comment"" 
+)
+    , 
+@rightPad(	)repeat	options1	//x
+	int
+,
+@tag( 00
+    // c
+    	// c
+
+)
+
+@lengthOf(string_ 
+        // c
+    	/// triple
+	)	@lengthOf(
+    f32a) string 
+/// triple
+  	//	t
+	u,
+match
+    // trailing space 
+    	x
+
+    as
+	uint8x{
+[
+
+    ""it's"" ,""x y""
+	,
+    ""it's"" ] : 	 // " ++ [128512]%N ++ runes_of_ascii " emoji
+
+  i64_
+
+    ,  // c
+	  }
+, }
+
+    root  packet trueish
+{
+    i8i8 
+`line1
+line2`, }	// " ++ [27880; 37322]%N ++ runes_of_ascii "
+    packet tag{	//	t
+	float64 // packet A { u8 x, }
+  Foo ``
+
+    ,
+}
+
+")).
+Eval vm_compute in ("<<<M563>>>" ++ check (runes_of_ascii "packet
+// `tick` ""quote"" 'q'
+// `tick` ""quote"" 'q'
+trueish {
+    repeat packetx /// triple
+zchar , // " ++ [128512]%N ++ runes_of_ascii " emoji
+zchar[ 1
+]
+    /// triple
+    stringy ,
+    @lengthOf( u8x ) repeat
+    f32 Logon,
+repeat u8x {
+zchar[	007
+    ]crc
+@calculatedFrom( ""a\\"" ) ,}
+,@tag( 255
+) @calculatedFrom(
+""it's"" //	t
+)	@tag( 65535 )repeat x
+{
+    repeat u8x metadata ,
+zchar[
+    //
+    00 ]  stringy@lengthOf( float
+    )
+`two words` , }
+, @lengthOf( A ) @calculatedFrom( ""packet"" )@rightPad ( '0'  )	Header ,msg_type charz , // packet A { u8 x, }
+} packet x
+{ @calculatedFrom( """ ++ [128512]%N ++ runes_of_ascii """ )
+zchar[ 0123456789 ]A
+    // c
+    @calculatedFrom( ""a	b""
+    )
+, @calculatedFrom( // " ++ [128512]%N ++ runes_of_ascii " emoji
+""""
+) repeat BodyLength `
+` ,
+    }packet Foo{  char[
+    7 ] crc // " ++ [27880; 37322]%N ++ runes_of_ascii "
+@lengthOf(
+charz )
+    // @lengthOf(
+    ,
+@lengthOf( float
+) charz ,repeat i8 Foo, uint64 leftPad /// triple
+`{ , }`
+    ,// `tick` ""quote"" 'q'
+falsey
+A,
+repeat u128 x_y_z `// not a comment`
+    // " ++ [128512]%N ++ runes_of_ascii " emoji
+    ,/// triple
+Logon @calculatedFrom( ""a	b"" )	, }
+")).
+Eval vm_compute in ("<<<M62>>>" ++ check (runes_of_ascii "MetaData Packet { // `tick` ""quote"" 'q'
+Header
+// " ++ [27880; 37322]%N ++ runes_of_ascii "
+// c
+uint8x
+`{ , }`, x_y_z u8x `it's`
+// packet A { u8 x, }
+// packet A { u8 x, }
+,
+} // trailing space 
+root packet packetx { repeat char[]  packetx , string zchar@lengthOf( a1
+)	`tab	here`
+    // @lengthOf(
+    ,
+match
+    string_ as float { ""a\""b""  : Logon , 00
+    :
+    Foo 42 : stringy	[ 255
+    , 0, ""a\\""] :f32a // @lengthOf(
+[7 ,	""`tick`""
+] : float , 0 : // c
+len //	t
+,} , @lengthOf( Header	)
+    //
+    len`doc`
+, repeat
+Pad { // " ++ [27880; 37322]%N ++ runes_of_ascii "
+repeat	Pad `it's`,// @lengthOf(
+char[ 65535
+    ]i64_
+    @calculatedFrom( //
+""1"" )
+    `a\` , crc
+    // `tick` ""quote"" 'q'
+    `two words` , match len
+// a // b
+/// triple
+as
+BodyLength { ""abc""
+    // " ++ [27880; 37322]%N ++ runes_of_ascii "
+    :a1, [ ""packet""
+    /// triple
+    ,
+    7
+    ]
+    : crc
+,
+    // c
+    3 :
+    asx , }	,	} ,
+int8 rootA @lengthOf(crc ),@lengthOf( chars)
+    // trailing space 
+    @tag( 7 ) @tag(7 ) repeat char[ 10 ] packetx	, }
+
+")).
+Eval vm_compute in ("<<<M604>>>" ++ check (runes_of_ascii "  packet MetaDataX
+    { @calculatedFrom( """ ++ [233]%N ++ runes_of_ascii "t" ++ [233]%N ++ runes_of_ascii """ ) @calculatedFrom( ""x y"" ) match
+    crc as A { 1 : As ,}
+    ,
+    }
+options {  uint8x
+    = false ;
+} packet	Foo {@tag( 007 ) repeat	x repeatCount, match uint8x as	roots { ""{,}"":
+Foo  , } , @tag( 10
+    // " ++ [128512]%N ++ runes_of_ascii " emoji
+    )int32	msg_type@lengthOf( rootA
+    //	t
+    ) , @calculatedFrom(	""a\""b"")@tag( 10 ) @lengthOf( msg_type )
+A `// not a comment`
+    , int64 asx @calculatedFrom(
+""\" ++ [233]%N ++ runes_of_ascii """ ) , asx @calculatedFrom( ""a\\"" ) ,@calculatedFrom( ""\n""
+) u64
+// c
+// " ++ [128512]%N ++ runes_of_ascii " emoji
+stringy
+    @calculatedFrom( ""CRC32"" ) `u8 x,`
+    ,  @calculatedFrom(
+""1"") @lengthOf(/// triple
+string_ // `tick` ""quote"" 'q'
+)//x
+uint16 roots	@lengthOf(
+u8x
+) `" ++ [28040; 24687; 31867; 22411]%N ++ runes_of_ascii "` ,
+}
+    root packet //	t
+len{ @calculatedFrom(
+    // trailing space 
+    ""CRC32"" ) @tag(
+1)
+repeat
+    char[] Pad
+,} options	{ Pad =
+false ;
+    string_ = uint16 ;
+stringy //
+=
+string } // " ++ [128512]%N ++ runes_of_ascii " emoji")).
+Eval vm_compute in ("<<<M3714>>>" ++ check (runes_of_ascii "  packet	Pad {}
+	options 
+{ _x	= false
+/// triple
+    // trailing space 
+	;
+	} MetaData repeatCount
+	{char[ 10
+	]As
+    `it's`
+    , 
+T
+
+metadata
+    `say ""hi""` ,
+    u16
+matchKey ,  }packet
+    u128 {f32	As	@calculatedFrom(
+	""packet""
+)`a\`
+    , repeat
+// packet A { u8 x, }
+// " ++ [128512]%N ++ runes_of_ascii " emoji
+    char[ 
+7
+    ]
+
+    // packet A { u8 x, }
+      // `tick` ""quote"" 'q'
+
+T`say ""hi""` ,
+	@lengthOf( 
+
+    // c
+    rootA	)
+u64	//
+  trueish  `{ , }` ,
+    repeat
+
+    char[ 
+3
+
+] MetaDataX ,repeat float64
+i64_, 
+i16
+charz  ,	u8
+trueish @lengthOf( int)
+
+    `u8 x,` , @leftPad  ( '0' ) match
+
+Header as
+	f32a{  [007
+
+    ]:
+    i8i8, ""a	b"":  //x
+    As  ,[ ""\n""
+
+    ]	: zchar
+,
+007
+    :a1 , 
+0123456789 :
+	falsey	,
+
+}	,
+repeat float64 stringy  `a\`
+    ,	}
+
+    packet 
+MetaDataX 
+{  roots
+
+// @lengthOf(
+
+leftPad `a\`
+	,} ")).
+Eval vm_compute in ("<<<M446>>>" ++ check (runes_of_ascii "// a // b
+MetaData x{ i8 MetaDataX
+`" ++ [233]%N ++ runes_of_ascii "`
+,
+string matchKey
+//	t
+// " ++ [27880; 37322]%N ++ runes_of_ascii "
+, // packet A { u8 x, }
+BodyLength
+f32a,
+char[ 7 ] u8x ,	char[] len , int16
+msg_type
+    , }packet o{ match roots as T{ [
+    255 , 1 , 1 , """ ++ [28040; 24687]%N ++ runes_of_ascii """
+, ""`tick`"",
+    ""a\""b""
+// c
+//x
+, 42	] :pack
+, [ 0 //
 ,
 ""// no comment"" ] :
-    Header [ ""a\\""
-    ,// " ++ [27880; 37322]%N ++ runes_of_ascii "
-4294967296 ]: roots
-// " ++ [128512]%N ++ runes_of_ascii " emoji
-// " ++ [128512]%N ++ runes_of_ascii " emoji
+    Logon, [ ""1"", ""abc""
+, 255 , 3 , ""\n""	, 255 , """ ++ [128512]%N ++ runes_of_ascii """
+    ,
+    ""{,}""
+] // a // b
+:
+    x_y_z , }
 ,
-// " ++ [128512]%N ++ runes_of_ascii " emoji
+    char[] len
+    @lengthOf(Pad )
+,
+char[]
+BodyLength ,trueish @calculatedFrom(""1"" )`" ++ [233]%N ++ runes_of_ascii "` , match
+chars as x_y_z{ ""`tick`""
+:calculatedFrom , } , @lengthOf( string_ ) char[
+    3 ]f32a,falsey `" ++ [28040; 24687; 31867; 22411]%N ++ runes_of_ascii "` ,
+repeat int64 //
+u128 `tab	here`, uint8 msg_type @calculatedFrom( ""a\\"" )  `line1
+line2`	, } options
+{
+    body =zchar[ 4294967296
+] ;u128 = '\x00' BodyLength= float32 }
 // @lengthOf(
-42 : rootA ,
-    [
-1 , """" /// triple
-,""`tick`"" , ""a	b"" ] : tag
-,  ""1""
-    : u8x // a // b
-,
-    }, f32a`a\`
-    //x
-    ,
-@lengthOf( u8x  ) pack asx
-, uint64	leftPad , repeat char[ 0] Pad , }
 ")).
-Eval vm_compute in ("<<<M3976>>>" ++ check (runes_of_ascii "
-root
-packet  i64_  
-  // " ++ [27880; 37322]%N ++ runes_of_ascii "
-  // a // b
-      {	/// triple
-	lengthOf
-    { // c
-  	T
-{  /// triple
-      zchar
-tag	,
-    match 
+Eval vm_compute in ("<<<M1303>>>" ++ check (runes_of_ascii "  root packet // a // b
+f32a{ zchar[0123456789] Foo , zchar @lengthOf(
+a1 ),
+    @rightPad// packet A { u8 x, }
+( ) @tag( 3
     //
-
-	// `tick` ""quote"" 'q'
-body 
-	//	t
-    as 
-      //x
-	  falsey {
-00 :
-	BodyLength
-
-,  [10
-, 0
-    ,
-
-""1""
-	,
-    0123456789
-    , 
-""a\\"",
-
-    ""`tick`""
-
-, """"  ,
-    4294967296	] 
-:
-stringy // c
-
-, // trailing space 
-"""" :// " ++ [128512]%N ++ runes_of_ascii " emoji
-    	trueish
-, // packet A { u8 x, }
-  [	""CRC32"" , 00 
-,	10 , 1
-] :int
-
-    , } ,
-    i8  T ,
-	    // `tick` ""quote"" 'q'
-}  /// triple
+    ) match
+int as stringy {
+    [ 0]: chars,0  :
+i8i8 42:	i64_
+, [
+// c
+// packet A { u8 x, }
+255
+/// triple
+// `tick` ""quote"" 'q'
 ,
-	msg_type
-    {
-int64
-u
-	,},
-match rootA  //x
-    as i64_
-
-{7
+7 ,""1"", ""a\\""] :
+    leftPad,
+""" ++ [233]%N ++ runes_of_ascii "t" ++ [233]%N ++ runes_of_ascii """
 :
-
-    uint8x ,
+Header ,
+    [ 7 ] : repeatCount ,
+} , i32 falsey @lengthOf(
+    u128 ) `two words` ,@tag( 0 )
+char[]
+// trailing space 
+// " ++ [27880; 37322]%N ++ runes_of_ascii "
+uint8x `{ , }`	, // " ++ [128512]%N ++ runes_of_ascii " emoji
+repeat MetaDataX { string /// triple
+len
+    ,// `tick` ""quote"" 'q'
+} ,
+@leftPad (// a // b
+'\x00'
+    //x
+    )
+    zchar[
+    0123456789	]o, f32 As
+@calculatedFrom(
+    ""a\\"" )
+    , @lengthOf(string_ )repeat u128
+    `` , pack/// triple
+{
+    crc stringy , repeat string asx , } , }
+")).
+Eval vm_compute in ("<<<M910>>>" ++ check (runes_of_ascii "//x
+packet zchar { match a1 as
+BodyLength
+    {
+    [// " ++ [128512]%N ++ runes_of_ascii " emoji
+""a\\""] :trueish ,
+} ,@leftPad (
+    //	t
+    '0' )	repeatCount @calculatedFrom( ""a	b"" )
+`tab	here`
+    ,int8 o @lengthOf(
+i64_ )
+    `u8 x,` ,
+    u8 chars	,
+} packet trueish {@lengthOf( crc )@calculatedFrom( """ ++ [128512]%N ++ runes_of_ascii """) @calculatedFrom(  ""`tick`""  )//x
+match BodyLength as Z9_
+    {
+    3: falsey [ 42 , 00 , 3
+, 10
+]
+    :
+    packetx	,255:
+metadata	,} // trailing space 
+, repeat x_y_z
+Header , @calculatedFrom( ""CRC32"" ) Z9_ // trailing space 
+{	x
+    // @lengthOf(
+    @calculatedFrom( ""1""
+// packet A { u8 x, }
+//x
+) `it's`	,
+// packet A { u8 x, }
+// trailing space 
+string
+Header, }
+,
+    @lengthOf( roots  ) i64_
+    , }
+// @lengthOf(
+")).
+Eval vm_compute in ("<<<M1282>>>" ++ check (runes_of_ascii "options { string_
+=
+0123456789 ; u=""" ++ [28040; 24687]%N ++ runes_of_ascii """ ; } options { f32a= 1
+// " ++ [27880; 37322]%N ++ runes_of_ascii "
+//x
+;}packet u8x{	float32 A@calculatedFrom( ""`tick`""
+    //x
+    ) ,i16 o
+    `" ++ [233]%N ++ runes_of_ascii "` ,int64 Logon	`
+`,@calculatedFrom( ""`tick`"") @tag(
+    //x
+    42 ) @leftPad
+    (	)
+    int8
+    // a // b
+    len
+    ,repeat char[3  ] // @lengthOf(
+crc , char[] Packet	@lengthOf( pack ) // trailing space 
+`" ++ [233]%N ++ runes_of_ascii "` // packet A { u8 x, }
+, /// triple
+}
+// @lengthOf(
+// @lengthOf(
+packet MetaDataX{ match u8x as Header{0 : body
+    //x
+    , [  ""\n""
+,""\n""
+// @lengthOf(
+/// triple
+, """ ++ [128512]%N ++ runes_of_ascii """
+, """ ++ [28040; 24687]%N ++ runes_of_ascii """	, 007// c
+]	:
+// `tick` ""quote"" 'q'
+//x
+leftPad, [ ""x y"" ] :
+// trailing space 
+//
+chars[ //	t
+10  ,3, ""`tick`"" ]: Header , }
+    , }
+")).
+Eval vm_compute in ("<<<M325>>>" ++ check (runes_of_ascii "
+root// packet A { u8 x, }
+packet As
+// c
+// packet A { u8 x, }
+{}	packet charz {metadata @calculatedFrom(
+""{,}"" )
+,repeat
+zchar[	007
+] T
+`tab	here`, repeat tag
+{
+int8 crc `two words` , repeat o// @lengthOf(
+{ repeat
+// " ++ [128512]%N ++ runes_of_ascii " emoji
+// trailing space 
+f32a,
+} , repeat i16 Z9_ `say ""hi""` , zchar[ // @lengthOf(
+3] body @lengthOf( Packet )
+,} , @lengthOf(
+    o ) match uint8x as As
+    {
+255	:
+T ,	},
+f32a
+    @lengthOf( leftPad )
+    // `tick` ""quote"" 'q'
+    ,BodyLength _x `u8 x,` ,
+} packet BodyLength
+{ }
+packet
+leftPad
+{ @leftPad(
+// " ++ [128512]%N ++ runes_of_ascii " emoji
+// packet A { u8 x, }
+' ') repeat zchar[ 10
+]	_x ,}
+    options{ int =65535 ;
+    }
+")).
+Eval vm_compute in ("<<<M359>>>" ++ check (runes_of_ascii "  root
+    packet o
+{ a1 a1	, char[
+3 ] i8i8 `
+` , @calculatedFrom( ""a\""b"" )// packet A { u8 x, }
+repeat /// triple
+Pad
+    , }
+// `tick` ""quote"" 'q'
+// `tick` ""quote"" 'q'
+packet
+    tag{ i8i8 @calculatedFrom( ""x y"" )
+`it's`
+, @lengthOf(x_y_z
+) @calculatedFrom(
+//
+//	t
+""a\""b""
+    ) u {
+match	a1 as
+    Logon { ""\n"" : Pad
+,3
+:	body , """"
+:// `tick` ""quote"" 'q'
+Logon ,
+""\n"" : T
+, ""`tick`""
+:
+    tag ,
+[ """ ++ [233]%N ++ runes_of_ascii "t" ++ [233]%N ++ runes_of_ascii """/// triple
+,
+7,
+""a\""b""	, 0123456789
+,""abc"" , """ ++ [28040; 24687]%N ++ runes_of_ascii """ ,0 ] : Z9_
+    },
+    char[ 00  ]//
+string_@lengthOf( asx ), char[
+    1 ]falsey , } ,match	crc
+as
+    lengthOf {
+    4294967296 : a1
+}, }
+")).
+Eval vm_compute in ("<<<M595>>>" ++ check (runes_of_ascii "
+options
+{asx =
+    // " ++ [27880; 37322]%N ++ runes_of_ascii "
+    string ;}options
+// " ++ [27880; 37322]%N ++ runes_of_ascii "
+// trailing space 
+{ repeatCount = zchar[0
+    ] ; leftPad
+// packet A { u8 x, }
+// @lengthOf(
+=
+    string
+    ; uint8x
+= '0'
+    ; }
+//x
+//	t
+root packet uint8x { trueish x_y_z , As
+// a // b
+//	t
+, zchar[//
+00 ] uint8x @lengthOf( a1 ) //
+`say ""hi""`
+    ,
+    @leftPad
+    (  )
+zchar[ 4294967296 ]
+    // @lengthOf(
+    metadata
+    `say ""hi""` ,float32 u128
+`line1
+line2`, char[ 10]
+    // " ++ [27880; 37322]%N ++ runes_of_ascii "
+    lengthOf@calculatedFrom( ""CRC32""
+) `doc` ,a1@lengthOf( chars )
+,
+    char[ 10 ] calculatedFrom
+, repeat
+uint32 As
+    ,	}")).
+Eval vm_compute in ("<<<M4548>>>" ++ check (runes_of_ascii "packet body {
+    @tag(00)
+    zchar[255] zchar @calculatedFrom(""it's""),
+    int8 i8i8,
+    x_y_z @lengthOf(options1),
+    // packet A { u8 x, }
+    zchar[00] T,
+    repeat float64 chars,
+    f64 repeatCount `doc`,
+    repeat i64_ repeatCount,
+    repeat Header int,
+    uint16 len `line1
+    line2`,
+    @lengthOf(Header)
+    @tag(0123456789)
+    float64 u8x @lengthOf(options1) `u8 x,`,
 }
 
-,
+options {
+    x = ""\" ++ [233]%N ++ runes_of_ascii """;
+}
 
-    }
-	,repeat  // `tick` ""quote"" 'q'
-  	calculatedFrom//x
-	{Pad
-T ,  repeatCount int,
-i16
-crc@calculatedFrom(	""packet"" )
-    ``	,match 
-// `tick` ""quote"" 'q'
-  // packet A { u8 x, }
-  u128 
-as
-As {	""""
+// " ++ [128512]%N ++ runes_of_ascii " emoji
+MetaData trueish {
+    options1 float ``,// a // b
+    zchar[3] lengthOf,
+}
 
-:	crc
-
-    ,
-[ 65535, 4294967296
-	,	007,
-""a	b"" ,10	// `tick` ""quote"" 'q'
-	]	: 
-rootA
-    ,
-
-},}
-
-,zchar[	4294967296 ]u ,
-
-    repeat
-    uint16
-	string_
-    `a\`
-,
-    }
-root 
+options {
+    rootA = ""1""
+    T = """ ++ [128512]%N ++ runes_of_ascii """
+}")).
+Eval vm_compute in ("<<<M432>>>" ++ check (runes_of_ascii "packet A {Logon// @lengthOf(
+o
+,	u8x{ // @lengthOf(
+asx // " ++ [27880; 37322]%N ++ runes_of_ascii "
+chars, }
+    , x o
+,@leftPad
+    ( )// trailing space 
+As
+// c
+//x
+@lengthOf(
+u)	,}MetaData f32a{crc
+    Logon ,}	root packet
+    u128 {stringy Logon// " ++ [128512]%N ++ runes_of_ascii " emoji
+`a\`, @calculatedFrom( // c
+""1""
+)	@leftPad
+    // a // b
+    ( '\x00' ) @tag(255 )int64 stringy @lengthOf(lengthOf //	t
+) `line1
+line2`, rootA `
+`,@calculatedFrom( ""a	b""
+    )// packet A { u8 x, }
+o
+@calculatedFrom(  ""`tick`"" ) // @lengthOf(
+`a\`
+, repeatCount @lengthOf(
+    T ) // @lengthOf(
+, }
+")).
+Eval vm_compute in ("<<<M4362>>>" ++ check (runes_of_ascii "
 packet
-    A {
+    metadata
+    {match trueish as  body
 
-match	Logon	as
+{0123456789  : A,
+	1:
+	rootA[ 	 //
+	  ""packet""
 
-    asx{ 
-[3 ,""a	b""  ] :  MetaDataX
+    ,
+
+65535, 65535
+
 ,
-0 
-:
-lengthOf
+
+""a	b""  ,
+42	, ""x y""
 ,
+
+1 // @lengthOf(
+
+,
+
+    0	] : 
+// packet A { u8 x, }
+    // " ++ [128512]%N ++ runes_of_ascii " emoji
+  u128
+, //	t
+	10	: As, 0123456789	:
+stringy,
+""x y"" :  BodyLength , }
+,	i64_
+
+    options1`a\`
+    ,	}
+
+    packet trueish{ 
+        /// triple
+  	}packet BodyLength
+
+{i32
+charz	,
+
+@calculatedFrom( // @lengthOf(
+      """ ++ [28040; 24687]%N ++ runes_of_ascii """ ) repeat float32
+	asx`doc` ,
+    }	// trailing space 
+ 
+")).
+Eval vm_compute in ("<<<M706>>>" ++ check (runes_of_ascii "packet  o
+    { chars  {
+// `tick` ""quote"" 'q'
+//
+repeat  options1 {repeat lengthOf packetx , }
+, repeat
+a1	,	} , repeat leftPad , } // packet A { u8 x, }
+packet
+float{ f64	string_ @lengthOf( float
+) , repeat
+f64
+uint8x , @tag(1 )
+    packetx{ i32 asx,}
+// `tick` ""quote"" 'q'
+// a // b
+, i64_ @lengthOf(
+    u128
+) `u8 x,` ,
+    asx // trailing space 
+{ string calculatedFrom	`u8 x,`
+, uint8 falsey @calculatedFrom( ""x y""
+),
+} , int32 Header
+, }
+//
+/// triple
+MetaData u8x { }
+")).
+Eval vm_compute in ("<<<M3884>>>" ++ check (runes_of_ascii "
+
+  options
+	{
+x
+=
+    3
+
+    matchKey
+
+    =
+""a\""b""	// @lengthOf(
+	leftPad=
 
 ""packet""
-:
+	;
+	T
 
-    // packet A { u8 x, }
-// " ++ [27880; 37322]%N ++ runes_of_ascii "
-	u8x  , 255 :
-repeatCount,
-	[
-00 , """" 
-]
-
-:
-
-charz
-    , 
-[ """"  ] :	msg_type , 
-} ,
-
-    }
-
-")).
-Eval vm_compute in ("<<<M668>>>" ++ check (runes_of_ascii "options{// packet A { u8 x, }
-uint8x =	'\x00' Foo  =
-    65535 ; As
     =
-""" ++ [28040; 24687]%N ++ runes_of_ascii """ } options{} // `tick` ""quote"" 'q'
-root	packet i8i8
-{// packet A { u8 x, }
-repeat
-calculatedFrom	body `" ++ [233]%N ++ runes_of_ascii "` ,	@tag( 1)
-repeat lengthOf{match
-asx as x// @lengthOf(
-{ """ ++ [233]%N ++ runes_of_ascii "t" ++ [233]%N ++ runes_of_ascii """ : T	}
-    //x
-    ,	trueish @calculatedFrom( ""\n"") ,
-    u32 x ,} , @rightPad ('\x00'	) i32 packetx //	t
-@lengthOf(
-// @lengthOf(
-// " ++ [128512]%N ++ runes_of_ascii " emoji
-trueish )
-    , @tag( 10) repeat
-asx
-    { repeat int32 lengthOf , int8
-repeatCount ``// a // b
-,
-repeatCount msg_type ,
-msg_type{ Logon { charz u
-    `it's` ,calculatedFrom
-repeatCount `crlf
-line`
-    // `tick` ""quote"" 'q'
-    ,
-    }
-, }
-,
-// " ++ [27880; 37322]%N ++ runes_of_ascii "
-//	t
-} // " ++ [128512]%N ++ runes_of_ascii " emoji
-, _x { // trailing space 
-match
-    x_y_z
-as packetx {""`tick`"" :
-Pad ,
-    """" : x, } , char[] T, int
-,Z9_ falsey, } ,string  T
-    `it's` ,@lengthOf(u128
-)// @lengthOf(
-u128 @calculatedFrom(""1""	)
-    , u128 { float { zchar[ 00
-] MetaDataX@lengthOf(// " ++ [128512]%N ++ runes_of_ascii " emoji
-leftPad
-) `it's` , } ,
-repeat char[] tag // " ++ [128512]%N ++ runes_of_ascii " emoji
-,
-} ,
-//x
-// " ++ [128512]%N ++ runes_of_ascii " emoji
-@leftPad
-( '0') match A as lengthOf {""packet""
-: Header 0123456789 :
-leftPad ,
-    ""a\""b""	: zchar ""a	b"": // `tick` ""quote"" 'q'
-rootA ,
-}
-    ,
-    string crc	, }")).
-Eval vm_compute in ("<<<M278>>>" ++ check (runes_of_ascii "MetaData f32a { uint8
-/// triple
-//x
-x ,
-f64 As
-`" ++ [233]%N ++ runes_of_ascii "`
-    // packet A { u8 x, }
-    , i64 f32a `u8 x,`  , uint32 // " ++ [128512]%N ++ runes_of_ascii " emoji
-string_ `crlf
-line` , char[ 10] pack
-    `a\` /// triple
-,Packet lengthOf	,}
-    root
-packet
-    MetaDataX { i32	u8x`tab	here` ,
-char[] stringy @lengthOf( repeatCount
-    ) `crlf
-line` , @rightPad ( )@lengthOf( Foo  ) char[
-65535	] body  , repeat pack{
-rootA `it's`
-    , match msg_type as  x_y_z {
-1:
-i64_ , 0123456789
-:Logon
-    , [ ""CRC32""]
-:
-A 1
-: _x , // a // b
-[ 42
-    // a // b
-    ] //
-:// @lengthOf(
-repeatCount , ""a	b""
-: pack
-    ,
-},
-char[
-    4294967296]lengthOf @lengthOf( options1//x
-), } , @tag( 4294967296 ) // " ++ [128512]%N ++ runes_of_ascii " emoji
-@calculatedFrom( //x
-""" ++ [128512]%N ++ runes_of_ascii """ )
-// " ++ [128512]%N ++ runes_of_ascii " emoji
-// " ++ [27880; 37322]%N ++ runes_of_ascii "
-repeat string	u, @lengthOf( // @lengthOf(
-f32a	) @tag(
-    007 ) @tag(
-7  ) msg_type Pad  , }
-    MetaData roots
-    { u64 MetaDataX
-,}
-packet // " ++ [27880; 37322]%N ++ runes_of_ascii "
-roots
-{
-@tag(
-    255 )
-    char[
-0123456789
-]  Logon`" ++ [28040; 24687; 31867; 22411]%N ++ runes_of_ascii "`
-    ,
-    body // packet A { u8 x, }
-@lengthOf( // a // b
-u8x) `two words`
-// " ++ [27880; 37322]%N ++ runes_of_ascii "
-/// triple
-, @lengthOf( Z9_
-)
-    packetx @calculatedFrom( """ ++ [28040; 24687]%N ++ runes_of_ascii """ )// " ++ [27880; 37322]%N ++ runes_of_ascii "
-,
-    }
-")).
-Eval vm_compute in ("<<<M4003>>>" ++ check (runes_of_ascii "// " ++ [27880; 37322]%N ++ runes_of_ascii "
-options {
-    i8i8 = 007;
-    Logon = 3;
-}
 
-packet u128 {
-    BodyLength {
-        char[7] int,
-        u16 _x @lengthOf(u),
-        i8 rootA `tab	here`,
-        stringy MetaDataX `u8 x,`,
-    },
-    @tag(007)
-    f32a @calculatedFrom(""" ++ [28040; 24687]%N ++ runes_of_ascii """) `it's`,
-    @calculatedFrom(""x y"")
-    char[007] string_ @calculatedFrom(""" ++ [128512]%N ++ runes_of_ascii """),// c
-    @calculatedFrom(""// no comment"")
-    @calculatedFrom(""a	b"")
-    f64 As,// `tick` ""quote"" 'q'
-    zchar[7] x `
-    `,
-    /// triple
-    u16 o,
-    repeat float32 roots `{ , }`,
-    @leftPad()
-    // c
-    repeatCount {
-        float64 u8x `a\`,
-        rootA @lengthOf(chars),
-        match u128 as roots {
-            // a // b
-            //
-            [""" ++ [128512]%N ++ runes_of_ascii """] : msg_type,
-            ""\n"" : u8x,
-            00 : crc,
-        },
-    },
-    //x
-    /// triple
-    u16 lengthOf @calculatedFrom(""" ++ [233]%N ++ runes_of_ascii "t" ++ [233]%N ++ runes_of_ascii """),
-}
+zchar[ 65535	] 
+; }
 
-MetaData repeatCount {
-    zchar[0123456789] Logon,
-    char[42] int,
-}
+MetaData
+MetaDataX
 
-options {
-}
+{ }	MetaData  // " ++ [128512]%N ++ runes_of_ascii " emoji
+repeatCount{
+u8x
+    Pad
 
-options {
-    repeatCount = ""1""
-    Z9_ = 255
-    string_ = ' ';
-    trueish = 3;
-    crc = ""packet"";
-}")).
-Eval vm_compute in ("<<<M841>>>" ++ check (runes_of_ascii "options
-{ } packet Foo { string Header `doc` ,
-    char[7] leftPad
-    , match i64_ as o { 10 //x
-: // `tick` ""quote"" 'q'
-x	,[""x y"" ] : repeatCount // c
-,
-0123456789 //	t
-:
-// @lengthOf(
-// `tick` ""quote"" 'q'
-roots ,
-    [0 ,
-7
-    ,00 ,
-""" ++ [233]%N ++ runes_of_ascii "t" ++ [233]%N ++ runes_of_ascii """
-,00 ,/// triple
-10
-, ""packet"" ] :  stringy ,
-    /// triple
-    [ 0123456789,
-""{,}"" , """" , ""a	b"" ,""a\\"" , ""\n"" , 4294967296,1	] :  BodyLength, /// triple
-4294967296: float , },
-packetx`
-`, zchar[  7 ] Foo ,  Logon ,
-match o as calculatedFrom {3: uint8x
-    //
-    }
-    , rootA repeatCount	, }
-    root
-packet f32a{@lengthOf(
-float  ) crc
-    `u8 x,`//
-, @calculatedFrom(
-""{,}"") repeat zchar[
-3
-    ]Header `` ,match len as pack { [ ""{,}"" , ""a\\""  ] :uint8x , [""packet"" , 42 ,""\n"", 4294967296// c
-,  ""CRC32"" ,
-    // `tick` ""quote"" 'q'
-    007	]
-    :Foo , """ ++ [233]%N ++ runes_of_ascii "t" ++ [233]%N ++ runes_of_ascii """
-    // packet A { u8 x, }
-    : BodyLength , 0123456789: crc , }
-    , x As
-`u8 x,`
-,float64 Pad @lengthOf( repeatCount) ,	char[
-00] Logon @lengthOf( tag )	,
-    }")).
-Eval vm_compute in ("<<<M3605>>>" ++ check (runes_of_ascii "// top
-packet // c0a
-  // c0b
-P1 // c1
-{ u8 a // c4
-, // c5a
-  // c5b
-} packet // c7a
-  // c7b
-P2 // c8a
-  // c8b
-{ // c9
-P1 // c10
-, // c11a
-  // c11b
-}
-    // c12
-packet
-    // c13
-P3 // c14a
-  // c14b
-{ // c15
-P2 // c16a
-  // c16b
-,
-    // c17
-P1
-    // c18
-, // c19
-} // c20a
-  // c20b
-packet // c21a
-  // c21b
-P4 {
-    // c23
-repeat // c24a
-  // c24b
-P3
-    // c25
-,
-    // c26
-P2 // c27
-,
-    // c28
-}
-    // c29
-root
-    // c30
-packet // c31a
-  // c31b
-P5 // c32
-{ // c33a
-  // c33b
-P4 // c34a
-  // c34b
-, // c35a
-  // c35b
-P3 // c36
-, // c37
-P1 // c38
-, // c39
-u8 // c40
-K , match // c43a
-  // c43b
-K // c44a
-  // c44b
-as
-    // c45
-Body // c46a
-  // c46b
-{ // c47a
-  // c47b
-4
-    // c48
-: // c49
-P4 // c50
-, // c51a
-  // c51b
-3 // c52a
-  // c52b
-: // c53a
-  // c53b
-P3 // c54a
-  // c54b
-, // c55a
-  // c55b
-2
-    // c56
-:
-    // c57
-P2 // c58
-, 1
-    // c60
-: // c61
-P1
-    // c62
-, // c63
-} , }
-    // c66
-")).
-Eval vm_compute in ("<<<M4286>>>" ++ check (runes_of_ascii "
-
-  packet 
-As{  // " ++ [27880; 37322]%N ++ runes_of_ascii "
-@leftPad
-('0' 
-    /// triple
-
-)	@lengthOf( i64_
-
-) 
-    // @lengthOf(
-		/// triple
-@leftPad  (
-
-'\x00'
-
-)
-    calculatedFrom  f32a 
-,
-	match
-x as
-x_y_z {  """" 
-
-    // c
-  	:	body
-
-    , 007: 
-o 
-,
-
-    [	""{,}""	]
-
-    : 
-As
 , 
-""\n"" :
-stringy
-	, 4294967296:
+}
+packet T
+{  @tag(
+    42 
+) repeat
 
-    roots
+    MetaDataX `{ , }` 
+// a // b
+	,// @lengthOf(
+
+float32
+	x
+@lengthOf(
+u8x  )
+`
+`
+,int16
+matchKey  @calculatedFrom( ""\n""
+	)`two words`,
+}packet
+	packetx  { _x
+
+@calculatedFrom(""a\""b""
+    )`a\`,}	// a // b
+")).
+Eval vm_compute in ("<<<M4558>>>" ++ check (runes_of_ascii "MetaData
+	float { 
+u8 Packet
 ,
-	}
+string i64_ `" ++ [28040; 24687; 31867; 22411]%N ++ runes_of_ascii "`
+
 ,
-calculatedFrom ,match Pad
-    as
-
-    asx
-{	[
-
-""" ++ [28040; 24687]%N ++ runes_of_ascii """ 
-,
-
-""1"", ""a	b""
-,
-
-3 , 
-""x y"",  00
-    ,10 
-,	""\" ++ [233]%N ++ runes_of_ascii """
-]
-:Pad  65535
-:  x
-
-7
-:
-x_y_z 3 :
 
     charz 
-, 
-""" ++ [233]%N ++ runes_of_ascii "t" ++ [233]%N ++ runes_of_ascii """
-:lengthOf
-    } 
-,
-    @calculatedFrom(
-""{,}""
-    )
+pack
+	, char rootA ,char[
 
-    @calculatedFrom(""CRC32""
-    )
-    @calculatedFrom(
+    0123456789 ]
 
-    ""a	b"")
+    msg_type	,
 
-/// triple
+    uint8	calculatedFrom 
+, }packet
 
-// trailing space 
-  crc As	/// triple
-    	,
-calculatedFrom
-
-{	char[]x
-
-    ``,  } 
-,
-@rightPad 	 // `tick` ""quote"" 'q'
-  (
-
-'\x00'
-) repeat 
-char[]asx  /// triple
-    `tab	here`
-
-    ,
-
-f32a 
-{ repeat
-char u,
-    } 	 // `tick` ""quote"" 'q'
-
-,
-	}")).
-Eval vm_compute in ("<<<M421>>>" ++ check (runes_of_ascii "// @lengthOf(
-MetaData Pad
-    { }
-MetaData
-msg_type { // packet A { u8 x, }
-packetx i64_ , char[ 1 ] Foo
-`" ++ [233]%N ++ runes_of_ascii "`	, } MetaData o  { }
-    // `tick` ""quote"" 'q'
-    options //x
-{ MetaDataX =u32 ;
-// @lengthOf(
-//x
-trueish
-    //	t
-    ='0'	options1 = 65535 ; Pad ='0'
-; x_y_z =
-    //x
-    ""a\""b""
-    } packet chars
-// trailing space 
-//	t
-{ @calculatedFrom(
-    ""a\\"" ) //	t
-match
-//x
-// trailing space 
-charz as  Foo { [4294967296 ,
-    ""CRC32"" ,
-// @lengthOf(
-// c
-3
-, ""a\""b""
-,
-    // a // b
-    ""CRC32""] :
-// trailing space 
-// c
-i8i8
-,
-} , @calculatedFrom(""" ++ [233]%N ++ runes_of_ascii "t" ++ [233]%N ++ runes_of_ascii """
-) char[] chars @calculatedFrom(""// no comment"" ) , char[]
-    x_y_z//
-,
-@lengthOf(
-trueish
-) @lengthOf( packetx) @lengthOf( packetx  ) Logon
-    @calculatedFrom( ""it's""	)
-, string
-_x  , uint32 packetx ,
-    repeat MetaDataX`tab	here`
-    ,
-}
-")).
-Eval vm_compute in ("<<<M166>>>" ++ check (runes_of_ascii "packet A {
-@lengthOf(
-    lengthOf)int16 packetx // trailing space 
-@calculatedFrom(""1"" )
-    , repeat u64 Packet`
-` , match trueish as /// triple
-roots { 3
-: A ,""x y""
-// " ++ [27880; 37322]%N ++ runes_of_ascii "
-//
-:
-BodyLength
-    //
-    ,
-    42:Foo  , },
-} packet As	{
-    msg_type @lengthOf(
-    /// triple
-    u )
-    , }root packet
-    zchar
-    {i8i8 i8i8
-`
-` ,zchar
-    {int8	Foo
-`a\`  , },
-    f32 pack @lengthOf(
-crc
-// packet A { u8 x, }
-// c
-) , @calculatedFrom( ""{,}""	) // " ++ [27880; 37322]%N ++ runes_of_ascii "
-match crc as
-roots { 65535 : int ""packet""
-:  float ,00 : zchar
-// packet A { u8 x, }
-// `tick` ""quote"" 'q'
-, [ ""x y""] :
-options1, ""it's""
-:x, } , @lengthOf(
-Packet)
-    match x
-    //	t
-    as As{ //	t
-0: lengthOf
-,
-    //	t
-    3 : pack , ""it's""  : x_y_z ,
-""a\""b"" : metadata
-} , uint16
-    i8i8, } // a // b")).
-Eval vm_compute in ("<<<M3615>>>" ++ check (runes_of_ascii "options { // c1a
-  // c1b
-LittleEndian
-    // c2
-= // c3
-true // c4a
-  // c4b
-; // c5
-StringPrefixLenType // c6
-= u8 // c8
-; // c9a
-  // c9b
-ArrayPrefixLenType // c10
-=
-    // c11
-u8
-    // c12
-;
-    // c13
-} // c14a
-  // c14b
-packet Ack // c16
-{ // c17a
-  // c17b
-} // c18
-root packet // c20a
-  // c20b
-Quote
-    // c21
-{ // c22a
-  // c22b
-Ack // c23a
-  // c23b
-, // c24
-InSym94 // c25a
-  // c25b
-{ repeat Ack
-    // c28
-, // c29
-} // c30
-, u16 // c32
-msgKind , u16 OrderId // c36a
-  // c36b
-@lengthOf( // c37a
-  // c37b
-Body
-    // c38
-) // c39a
-  // c39b
-, match // c41
-msgKind
-    // c42
-as // c43a
-  // c43b
-Body
-    // c44
-{ // c45
-[ 110 // c47
-, // c48
-48
-    // c49
-] : Ack // c52
-, // c53a
-  // c53b
-}
-    // c54
-, } // c56
-")).
-Eval vm_compute in ("<<<M933>>>" ++ check (runes_of_ascii "packet //x
-Foo
-    {char _x ,
-@calculatedFrom(
-    // c
-    ""`tick`"")uint8x , @calculatedFrom(""it's"" ) repeat metadata {int64 Pad  , // " ++ [128512]%N ++ runes_of_ascii " emoji
-float , pack
-    // c
-    matchKey`" ++ [28040; 24687; 31867; 22411]%N ++ runes_of_ascii "`
-, }, string lengthOf
-//
-/// triple
-,
-zchar[ 7 ]	chars ,i16 asx @calculatedFrom(
-""{,}"" )`u8 x,` , @calculatedFrom(""a\\"" ) u32 o `tab	here`
-//
-// a // b
-,match u8x as
-    chars {[ ""// no comment"",""`tick`"", ""x y""
-    ,0
-,""\" ++ [233]%N ++ runes_of_ascii """, //	t
-00 ,""" ++ [233]%N ++ runes_of_ascii "t" ++ [233]%N ++ runes_of_ascii """ ]	:
-lengthOf ,
-},  } options
-{ crc// `tick` ""quote"" 'q'
-=u64 }packet metadata { @rightPad () float len ,} options {  f32a =false
-//	t
-//
-;
-    calculatedFrom =  10;//	t
-pack =
-    char[  42
-    ] trueish = ' '
-}
-    root  packet leftPad	{ i32
-x
-    `{ , }` ,
-}
-")).
-Eval vm_compute in ("<<<M164>>>" ++ check (runes_of_ascii "MetaData
-Packet {
-    float	Pad ,u32 // " ++ [128512]%N ++ runes_of_ascii " emoji
-Foo `it's`
-    ,uint16 stringy
-    , } packet
-    stringy // @lengthOf(
-{ @lengthOf(
-    chars
-) repeat f32 pack ,  @lengthOf(
-rootA
-)
-    // @lengthOf(
-    @calculatedFrom( ""CRC32""  ) char[] MetaDataX
-    // a // b
-    `" ++ [28040; 24687; 31867; 22411]%N ++ runes_of_ascii "` , @tag( 4294967296
-    ) len	@calculatedFrom(""a	b"")
-,
-} packet
-stringy { f32 leftPad/// triple
-,
-stringy { int	@calculatedFrom(""1"" ) `" ++ [233]%N ++ runes_of_ascii "`,	char[] o, zchar[ 0123456789  ]
-    matchKey @lengthOf(	lengthOf )
-`two words`
-, }
-,
-@leftPad ('\x00'
-) @lengthOf(
-// " ++ [128512]%N ++ runes_of_ascii " emoji
-/// triple
-falsey) repeat string falsey
-    `// not a comment` // trailing space 
-, //	t
-string Pad
-    , }
-
-")).
-Eval vm_compute in ("<<<M106>>>" ++ check (runes_of_ascii "packet  matchKey
-{
-    } options{ int = ""a\\""
-; lengthOf //	t
-= ""it's"" } MetaData lengthOf { Pad  tag
-    , } root packet
-    x {int @lengthOf(	pack )
-`a\` //
-, string matchKey
-@lengthOf( chars
-    )  `" ++ [233]%N ++ runes_of_ascii "` , repeat repeatCount
-//x
-//
-{
-    // packet A { u8 x, }
-    match x_y_z as A
-    {""1"": o	,
-// packet A { u8 x, }
-// `tick` ""quote"" 'q'
-7 :uint8x
-// `tick` ""quote"" 'q'
-//	t
-, [
-// `tick` ""quote"" 'q'
-// " ++ [128512]%N ++ runes_of_ascii " emoji
-65535 , """"
-] ://
-Header """ ++ [233]%N ++ runes_of_ascii "t" ++ [233]%N ++ runes_of_ascii """ :  u8x
-    """ ++ [28040; 24687]%N ++ runes_of_ascii """ : charz 65535 :
-stringy }// " ++ [128512]%N ++ runes_of_ascii " emoji
-,	zchar[007]	uint8x ,f32 repeatCount @lengthOf( // c
-float) `two words` , f64 A  `u8 x,`	,
-}, }
-    packet Header{ }
-")).
-Eval vm_compute in ("<<<M13>>>" ++ check (runes_of_ascii "
-packet msg_type
-    // packet A { u8 x, }
-    {//	t
-string	packetx @lengthOf( charz )	, @calculatedFrom( """"  )
-repeat char[ 0123456789
-    ]
-    // c
-    int `it's` ,
-    @rightPad (// packet A { u8 x, }
-)
-@tag( 42 )
-    @calculatedFrom( ""`tick`""
-) repeat
-uint16
-falsey  `" ++ [233]%N ++ runes_of_ascii "`
-, i32 Foo , @tag(7 ) u64
-chars@lengthOf(  BodyLength ), i16
-    Z9_@lengthOf(/// triple
-a1 ) ,@lengthOf(leftPad ) lengthOf body ``	, @tag(
-    007 )
-char[
-    10 //x
-]
-_x
-// a // b
-// " ++ [27880; 37322]%N ++ runes_of_ascii "
-@lengthOf(
-    roots )	`
-` , // a // b
-@calculatedFrom(""a\\"" )
-    float64 //	t
-rootA`doc` , string T @calculatedFrom( """" ) , }")).
-Eval vm_compute in ("<<<M859>>>" ++ check (runes_of_ascii "  MetaData
-a1{leftPad Foo `" ++ [233]%N ++ runes_of_ascii "` , u16
-    BodyLength , } packet packetx
-    { } options{ As
-= """" string_=// c
-true ; } //	t
-packet	zchar  { u128 @lengthOf( stringy ) `" ++ [28040; 24687; 31867; 22411]%N ++ runes_of_ascii "` ,
-Z9_
-As `` ,
-    // a // b
-    repeat u128
-body`" ++ [233]%N ++ runes_of_ascii "` , @rightPad	( ' ') @tag( 42 ) match charz
-as a1 {""packet"" :
-i64_	, } , int
-    /// triple
-    @lengthOf( As
-)  `// not a comment`
-//
-//x
-, string body,@calculatedFrom( ""\n"" ) u8 a1, @leftPad( '0'// a // b
-)repeat i64_ `a\` , pack
-    stringy  , zchar[	00 ] len @calculatedFrom(
-//x
-// `tick` ""quote"" 'q'
-""packet"" ) `
-`,// trailing space 
-}
-")).
-Eval vm_compute in ("<<<M4537>>>" ++ check (runes_of_ascii "packet f32a {
-    roots {
-        chars calculatedFrom,
-        u16 Header `" ++ [233]%N ++ runes_of_ascii "`,
-        char[] repeatCount,//	t
-    },
-    @calculatedFrom(""x y"")
-    i32 crc @calculatedFrom(""x y""),
-    repeat uint64 lengthOf,
-    repeat char[65535] u,
-    @lengthOf(tag)
-    @lengthOf(pack)
-    @calculatedFrom(""packet"")
-    // packet A { u8 x, }
-    match A as f32a {
-        // trailing space 
-        // c
-        ""`tick`"" : i8i8,
-    },
-    @tag(0123456789)
-    repeat repeatCount crc,
-    repeat u32 options1 `a\`,
-}
-
-options {
-    matchKey = '0';
-}")).
-Eval vm_compute in ("<<<M126>>>" ++ check (runes_of_ascii "root packet pack { @calculatedFrom(	""`tick`"")
-    @calculatedFrom(
-    // " ++ [128512]%N ++ runes_of_ascii " emoji
-    ""\n"" ) @tag( 0123456789 )match zchar as string_ {	[ ""packet"" ] //
-:  i8i8 , [
-0123456789 , 7	] :string_ ,
-//x
-// `tick` ""quote"" 'q'
-0 : options1 ,
-""\" ++ [233]%N ++ runes_of_ascii """
-:// `tick` ""quote"" 'q'
-Foo	,}
-, @lengthOf(	calculatedFrom )
-Foo	@lengthOf(
-    x)
-`crlf
-line`
-, lengthOf @lengthOf(int )  ,T , @lengthOf(  rootA) zchar[
-007 ]
-// " ++ [128512]%N ++ runes_of_ascii " emoji
-// packet A { u8 x, }
-x`crlf
-line` , @calculatedFrom(
-    ""\n""	) repeat f64	chars
-, matchKey _x, }")).
-Eval vm_compute in ("<<<M800>>>" ++ check (runes_of_ascii "options {  }packet Packet
-    { repeat
-zchar[ 0123456789 ]
-    crc , repeat zchar[	4294967296
-]Z9_ ,// packet A { u8 x, }
-rootA ,repeat Packet
-    { lengthOf{
-u8x `{ , }` , zchar[ 0123456789 ] lengthOf
-`{ , }` , // " ++ [27880; 37322]%N ++ runes_of_ascii "
-Header { repeat
-// c
-//x
-f32 As `line1
-line2`	,
-    charz
-    @calculatedFrom( ""1""
-) , } , },},
-i8//	t
-float
-@lengthOf( T// packet A { u8 x, }
-) ,@lengthOf(
-    metadata )
-@calculatedFrom( ""packet""
-    // a // b
-    ) @lengthOf( repeatCount ) repeat
-f32 Foo	, } 	 ")).
-Eval vm_compute in ("<<<M1354>>>" ++ check (runes_of_ascii "options { Packet = u8 ; }packet  metadata // @lengthOf(
-{ charz {	match asx
-    as
-A
-{
-[ ""\n"",
-    // " ++ [128512]%N ++ runes_of_ascii " emoji
-    ""a\""b"" ]
-:string_
-""a\\"" :float
-    // @lengthOf(
-    , [ 10 ] :
-// c
-// a // b
-leftPad ,
-255:
-Packet
-,[ ""a	b"", ""a	b"" , """ ++ [28040; 24687]%N ++ runes_of_ascii """	, 42 ,
-// " ++ [27880; 37322]%N ++ runes_of_ascii "
-// packet A { u8 x, }
-""a\\"" ] :
-    repeatCount , [  255	, """ ++ [128512]%N ++ runes_of_ascii """ ,
-0123456789 // trailing space 
-,
-""" ++ [233]%N ++ runes_of_ascii "t" ++ [233]%N ++ runes_of_ascii """ ]: a1} , } , }  packet o {@calculatedFrom( ""\n"" )
-repeat len
-    ,
-// trailing space 
-//
-body Logon
-,
-    }")).
-Eval vm_compute in ("<<<M401>>>" ++ check (runes_of_ascii "// " ++ [128512]%N ++ runes_of_ascii " emoji
-packet
-    roots
-{x_y_z @lengthOf(
-    u128
-) ,
-    @calculatedFrom( ""it's"")match
-a1
-as
-    Pad
-{ ""`tick`"" : x_y_z ,1
-: leftPad 00
-:
-u8x
-7 //x
-:falsey , ""1"" :Packet ,
-//x
-// trailing space 
-""`tick`""
-    : As//x
-}	, @tag(	007 )  char[]MetaDataX ,string chars @calculatedFrom( ""`tick`"" )
-    , } root packet calculatedFrom
-    { repeat zchar[ 255 ] matchKey `doc` , char[ 4294967296 ]  options1 @lengthOf(
-stringy//	t
-) , } // a // b")).
-Eval vm_compute in ("<<<M1250>>>" ++ check (runes_of_ascii "  MetaData metadata	{repeatCount
-asx, u16 trueish ,i8i8 Foo
-`say ""hi""`// packet A { u8 x, }
-, char[ 4294967296 ]
-u,
-} packet uint8x {
-repeat char[]
-    u, @tag(007 )  char[7 ]falsey@calculatedFrom(""" ++ [233]%N ++ runes_of_ascii "t" ++ [233]%N ++ runes_of_ascii """ ) , @leftPad (
-    '\x00' )
-@lengthOf(	leftPad )
-Packet{
-    repeat //	t
-packetx Header ,tag `" ++ [233]%N ++ runes_of_ascii "` , i16 _x `a\` , },	repeat A {//	t
-repeat Header
-`doc` ,i64_  , char[ 10] asx
-    `two words`
-, }// `tick` ""quote"" 'q'
-,} 	 ")).
-Eval vm_compute in ("<<<M3901>>>" ++ check (runes_of_ascii "  packet int
-
-    {	@tag(7
-)  @tag(
-
-    007 )
-zchar[
-    4294967296
-
-    ]
-	Logon
-@calculatedFrom(
-	""it's"" )
-
-    `" ++ [233]%N ++ runes_of_ascii "`
-	,	@leftPad ( ) @lengthOf(
-falsey
-) char
-    x@lengthOf( 
-	// `tick` ""quote"" 'q'
-	// " ++ [27880; 37322]%N ++ runes_of_ascii "
-	msg_type )
-    `it's`	,
-	match
-	a1
-as BodyLength
+Pad
 	{
-    42
-	: u
+
+}
+root
+	packet
+len
+    { // c
+  matchKey@calculatedFrom( 
+""a\""b""
+) 
+`u8 x,`  ,//x
+
+  @leftPad  (
+
+    )
+match
+
+    roots
+as u128
+{
+
+    [ 4294967296  
+  // packet A { u8 x, }
+,  007]
+:body  , 
+}
+    ,
+    charz
+    , 
+    // trailing space 
+	}
+")).
+Eval vm_compute in ("<<<M4395>>>" ++ check (runes_of_ascii "
+packet
+	u8x 
+{	//
+  asx 
+// a // b
+  // @lengthOf(
+`say ""hi""`
+	    //x
+
+  ,
 
     }
+    MetaData
 
-    ,repeat
+Foo { 
+packetx
 
-    float32
+    MetaDataX `" ++ [28040; 24687; 31867; 22411]%N ++ runes_of_ascii "` , }
+	packet
+a1
 
-    packetx ,
-
-    asx
-
-`u8 x,`  // trailing space 
-	,lengthOf 
-,
-roots
-, }
-
-")).
-Eval vm_compute in ("<<<M4288>>>" ++ check (runes_of_ascii "packet stringy {
-    Logon {
-        match string_ as i64_ {
-            ""x y"" : string_,
-            // " ++ [27880; 37322]%N ++ runes_of_ascii "
-            // `tick` ""quote"" 'q'
-            ""`tick`"" : string_,
-            1 : float,
-            [""1""] : options1,
-        },
-        zchar[1] crc @calculatedFrom("""") `two words`,
-        f32a,
-        float32 lengthOf,
-    },
-    @tag(255)
-    u8x @calculatedFrom(""abc"") `a\`,
-}")).
-Eval vm_compute in ("<<<M4309>>>" ++ check (runes_of_ascii "packet Z9_ {
-    @lengthOf(pack)
-    calculatedFrom u128,/// triple
-    @tag(4294967296)
-    u64 options1,
-    uint16 uint8x @calculatedFrom(""\n""),//
-}
-
-packet pack {
-    leftPad MetaDataX,
-    @leftPad()
-    @lengthOf(packetx)
-    repeat lengthOf {
-        f64 repeatCount @calculatedFrom(""a\""b"") `tab	here`,
-    },
-    repeat pack body,
-}
-
-options {
-    u128 = true;
-}")).
-Eval vm_compute in ("<<<M525>>>" ++ check (runes_of_ascii "packet pack// @lengthOf(
-{ repeat
-As// " ++ [27880; 37322]%N ++ runes_of_ascii "
-{ char[65535  ] u128 // a // b
-@lengthOf( a1 )
-`tab	here` ,i8 rootA `crlf
-line`
-,
-    match //x
-i8i8 as
-    zchar { [""1""]
-: tag ,""a	b"":
-u8x
-    ""a\""b""
-: calculatedFrom, } , match leftPad //	t
-as
-    Pad
-{
-// `tick` ""quote"" 'q'
-// trailing space 
-65535 : options1
-},}	,u32 crc
-    , zchar[ 00]
-roots, }
-
-")).
-Eval vm_compute in ("<<<M4037>>>" ++ check (runes_of_ascii "packet A {
-    repeat lengthOf {
-        len,
-    },
-    @tag(42)
-    match Header as falsey {
-        [4294967296, """ ++ [128512]%N ++ runes_of_ascii """, ""\n""] : Packet,
-        1 : falsey,
-        ""\" ++ [233]%N ++ runes_of_ascii """ : charz,
-    },
-    zchar[255] rootA,
-    repeat char[10] f32a,
-    @calculatedFrom(""// no comment"")
-    char[00] trueish @calculatedFrom(""a\""b"") `line1
-        line2`,
-}")).
-Eval vm_compute in ("<<<M3720>>>" ++ check (runes_of_ascii "
-packet
-A
 {
 
-    u8	a	,}
-    packet
+    @calculatedFrom(
 
-    B { u16 
-b, }
-    packet
-	C  {	u32  c
-
-,
-} 
-root
-
-    packet  M 
-{
-
-    u16
-Kc ,
-	u16
-Kb
-,
-u16	Ka
-
-    ,
-match
-	Kc
-
-as  X
-    { 9
-    : 
-A,10 :
-
-    B	,  }
-
-    , match
-	Kb as Y
-{ 2 
-:
-C  ,1 : A
-    ,  }
-    , match
-Ka	as	Z {
-    1  :
-
-    B
-,
-
-}
-,	A
-
-,
-B
-,C	,}
-")).
-Eval vm_compute in ("<<<M1916>>>" ++ check (runes_of_ascii "MetaData
-    u { }  options {
-// c
-// @lengthOf(
-float = int8 ;rootA =false false ; As =	int16 // `tick` ""quote"" 'q'
-repeatCount
-    // trailing space 
-    =
-    int16
-; u8x =
-    //	t
-    '\x00' ; } options	{
-    repeatCount
-= 0
-u128
-    //
-    = false ; i64_
-// trailing space 
-// `tick` ""quote"" 'q'
-= '0' ; //	t
-}
-")).
-Eval vm_compute in ("<<<M633>>>" ++ check (runes_of_ascii "root packet BodyLength {u16
-    tag @calculatedFrom(""packet""
-)// packet A { u8 x, }
-, u8 i8i8 ,
-repeat float64
-    string_`u8 x,` , } MetaData
-stringy
-    {	repeatCount
-    a1 ,
+    ""\" ++ [233]%N ++ runes_of_ascii """// trailing space 
+	  ) len
     // " ++ [27880; 37322]%N ++ runes_of_ascii "
-    char[ 0123456789 ] u128 `doc` //	t
+
+  // c
+`` ,
+
+    @calculatedFrom( ""a\\"" // trailing space 
+  	)@lengthOf( calculatedFrom )	//	t
+  string msg_type
+        // trailing space 
+	// c
+  , }
+        // packet A { u8 x, }
+")).
+Eval vm_compute in ("<<<M4163>>>" ++ check (runes_of_ascii "packet repeatCount {
+    @rightPad(' ')
+    char[42] Header @calculatedFrom(""a\\""),
+    // packet A { u8 x, }
+    // packet A { u8 x, }
+    @tag(10)
+    i64 options1 @calculatedFrom(""x y""),
+    Packet {
+        i64 lengthOf @calculatedFrom(""abc""),
+        repeat zchar[00] i64_ `u8 x,`,
+    },
+    string tag,
+    string o `" ++ [233]%N ++ runes_of_ascii "`,
+    repeat char[42] a1 `doc`,
+    string leftPad @calculatedFrom(""a\\""),
+}")).
+Eval vm_compute in ("<<<M122>>>" ++ check (runes_of_ascii "
+packet  u
+    //	t
+    {uint32 metadata	,	@lengthOf( metadata // " ++ [27880; 37322]%N ++ runes_of_ascii "
+)
+// `tick` ""quote"" 'q'
+// c
+repeat Logon
+    ,x_y_z// a // b
+, @lengthOf(
+    tag )
+// " ++ [128512]%N ++ runes_of_ascii " emoji
+// c
+float msg_type	,}MetaData chars { u8x
+    matchKey
+// " ++ [27880; 37322]%N ++ runes_of_ascii "
+//x
 ,
-    u16 _x , i64
-pack
-    ,
-i64
-BodyLength `say ""hi""`, zchar[ 255
-    ]
-Z9_
-    ,}
-")).
-Eval vm_compute in ("<<<M2072>>>" ++ check (runes_of_ascii "MetaData
-    u { }  options {
-// c
-// @lengthOf(@x
-float = int8 ;rootA =false ; As =	int16 // `tick` ""quote"" 'q'
-repeatCount
-    // trailing space 
-    =
-    int16
-; u8x =
-    //	t
-    '\x00' ; } options	{
-    repeatCount
-= 0
-u128
-    //
-    = false ; i64_
+    uint8
+    x_y_z `u8 x,`, zchar x_y_z `doc` ,	char i64_ `a\` ,f32 tag//	t
+, } MetaData _x {
 // trailing space 
 // `tick` ""quote"" 'q'
-= '0' ; //	t
-}
+} options { }
 ")).
-Eval vm_compute in ("<<<M1927>>>" ++ check (runes_of_ascii "MetaData
-    u { }  options {
-// c
-// @lengthOf(
-float = int8 ;rootA =false ; = As	int16 // `tick` ""quote"" 'q'
-repeatCount
-    // trailing space 
-    =
-    int16
-; u8x =
-    //	t
-    '\x00' ; } options	{
-    repeatCount
-= 0
-u128
-    //
-    = false ; i64_
-// trailing space 
-// `tick` ""quote"" 'q'
-= '0' ; //	t
-}
-")).
-Eval vm_compute in ("<<<M1860>>>" ++ check (runes_of_ascii "MetaData
-     { }  options {
-// c
-// @lengthOf(
-float = int8 ;rootA =false ; As =	int16 // `tick` ""quote"" 'q'
-repeatCount
-    // trailing space 
-    =
-    int16
-; u8x =
-    //	t
-    '\x00' ; } options	{
-    repeatCount
-= 0
-u128
-    //
-    = false ; i64_
-// trailing space 
-// `tick` ""quote"" 'q'
-= '0' ; //	t
-}
-")).
-Eval vm_compute in ("<<<M2040>>>" ++ check (runes_of_ascii "MetaData
-    u { }  options {
-// c
-// @lengthOf(
-float = int8 ;rootA =false ; As =	int16 // `tick` ""quote"" 'q'
-repeatCount
-    // trailing space 
-    =
-    int16
-; u8x =
-    //	t
-    '\x00' ; } options	{
-    repeatCount
-= 0
-u128
-    //
-    = false ; i64_
-// trailing space 
-// `tick` ""quote"" 'q'
-=  ; //	t
-}
-")).
-Eval vm_compute in ("<<<M822>>>" ++ check (runes_of_ascii "packet
-packetx {
-    match i64_ as roots
-// trailing space 
-// c
-{ 7
+Eval vm_compute in ("<<<M4474>>>" ++ check (runes_of_ascii "packet
+
+f32a  { }
+
+packet 
+metadata{
+
+    @calculatedFrom(""\" ++ [233]%N ++ runes_of_ascii """
+	) repeat  _x
+	{string
+	    // a // b
+    	falsey
+
+, } ,
+
+@calculatedFrom(
+""it's""
+
+) As 
+leftPad`a\`  ,
+@calculatedFrom(
+	""abc""  ) 
+char[  //	t
+    0]  roots , @tag(
+00) match Pad as
+	roots {
+10
 :
-x 42 :  asx
+    x_y_z 
+,
+
+    00 : 
+len  [	""// no comment""
+]// a // b
+  :
+T}	, 
+a1 Header
+`" ++ [233]%N ++ runes_of_ascii "`
+    ,// " ++ [27880; 37322]%N ++ runes_of_ascii "
+
+  }
+")).
+Eval vm_compute in ("<<<M542>>>" ++ check (runes_of_ascii "packet // a // b
+chars { @leftPad (  )
+char[ 42] asx
+,
+@tag( 007 ) matchKey
+    As
+,  @leftPad ( // a // b
+'\x00' // " ++ [128512]%N ++ runes_of_ascii " emoji
+) msg_type`u8 x,` ,
+    repeat  charz// packet A { u8 x, }
+{ int64 f32a ,Header { u32 MetaDataX ,
+char[
+3
+] repeatCount @calculatedFrom(""packet""
+)
+`tab	here`
+, repeat f64 Logon
+`
+`
+, }
+, }
+//
+// trailing space 
+, } //	t")).
+Eval vm_compute in ("<<<M44>>>" ++ check (runes_of_ascii "packet rootA { @rightPad( ' ') repeat
+    Z9_ roots
+``,	zchar
+tag `two words` , @rightPad ( ' '
+    )
+len {
+// trailing space 
+//x
+u128
+`doc` ,u8x
+    ,  char[ 0123456789 // a // b
+]calculatedFrom  `" ++ [28040; 24687; 31867; 22411]%N ++ runes_of_ascii "`,msg_type
+@lengthOf(
+falsey)`u8 x,` , } ,
+@calculatedFrom( """"	)	f64 charz
+@lengthOf(msg_type) `it's`// trailing space 
+,
+    }
+")).
+Eval vm_compute in ("<<<M1883>>>" ++ check (runes_of_ascii "MetaData
+    u { }  options @lengthOf(
+// c
+// @lengthOf(
+float = int8 ;rootA =false ; As =	int16 // `tick` ""quote"" 'q'
+repeatCount
+    // trailing space 
+    =
+    int16
+; u8x =
+    //	t
+    '\x00' ; } options	{
+    repeatCount
+= 0
+u128
+    //
+    = false ; i64_
+// trailing space 
+// `tick` ""quote"" 'q'
+= '0' ; //	t
+}
+")).
+Eval vm_compute in ("<<<M2038>>>" ++ check (runes_of_ascii "MetaData
+    u { }  options {
+// c
+// @lengthOf(
+float = int8 ;rootA =false ; As =	int16 // `tick` ""quote"" 'q'
+repeatCount
+    // trailing space 
+    =
+    int16
+; u8x =
+    //	t
+    '\x00' ; } options	{
+    repeatCount
+= 0
+u128
+    //
+    = false ; i64_
+// trailing space 
+// `tick` ""quote"" 'q'
+int16 '0' ; //	t
+}
+")).
+Eval vm_compute in ("<<<M2016>>>" ++ check (runes_of_ascii "MetaData
+    u { }  options {
+// c
+// @lengthOf(
+float = int8 ;rootA =false ; As =	int16 // `tick` ""quote"" 'q'
+repeatCount
+    // trailing space 
+    =
+    int16
+; u8x =
+    //	t
+    '\x00' ; } options	{
+    repeatCount
+= 0
+u128
+    //
+    = = false ; i64_
+// trailing space 
+// `tick` ""quote"" 'q'
+= '0' ; //	t
+}
+")).
+Eval vm_compute in ("<<<M1862>>>" ++ check (runes_of_ascii "MetaData
+    { u }  options {
+// c
+// @lengthOf(
+float = int8 ;rootA =false ; As =	int16 // `tick` ""quote"" 'q'
+repeatCount
+    // trailing space 
+    =
+    int16
+; u8x =
+    //	t
+    '\x00' ; } options	{
+    repeatCount
+= 0
+u128
+    //
+    = false ; i64_
+// trailing space 
+// `tick` ""quote"" 'q'
+= '0' ; //	t
+}
+")).
+Eval vm_compute in ("<<<M2007>>>" ++ check (runes_of_ascii "MetaData
+    u { }  options {
+// c
+// @lengthOf(
+float = int8 ;rootA =false ; As =	int16 // `tick` ""quote"" 'q'
+repeatCount
+    // trailing space 
+    =
+    int16
+; u8x =
+    //	t
+    '\x00' ; } options	{
+    repeatCount
+= u128
+0
+    //
+    = false ; i64_
+// trailing space 
+// `tick` ""quote"" 'q'
+= '0' ; //	t
+}
+")).
+Eval vm_compute in ("<<<M2005>>>" ++ check (runes_of_ascii "MetaData
+    u { }  options {
+// c
+// @lengthOf(
+float = int8 ;rootA =false ; As =	int16 // `tick` ""quote"" 'q'
+repeatCount
+    // trailing space 
+    =
+    int16
+; u8x =
+    //	t
+    '\x00' ; } options	{
+    repeatCount
+= 
+u128
+    //
+    = false ; i64_
+// trailing space 
+// `tick` ""quote"" 'q'
+= '0' ; //	t
+}
+")).
+Eval vm_compute in ("<<<M1140>>>" ++ check (runes_of_ascii "
+options  {Foo =
+    true // trailing space 
+;}
+    packet
+u128{ @calculatedFrom( ""x y"")  lengthOf@lengthOf(
+msg_type)	`tab	here` ,
+    asx
+x
+, zchar[ 10
+    // c
+    ] i64_ , repeat body ,
+char[255 // @lengthOf(
+]asx@calculatedFrom( """ ++ [128512]%N ++ runes_of_ascii """
+    )
+`crlf
+line`,u128
+    string_ ,
+int { zchar[ 7
+]_x , }  , }")).
+Eval vm_compute in ("<<<M501>>>" ++ check (runes_of_ascii "packet Foo{
+    char[ 10
+]f32a
+@lengthOf(
+calculatedFrom )
+    `crlf
+line`
+    , match pack as A// `tick` ""quote"" 'q'
+{ """ ++ [233]%N ++ runes_of_ascii "t" ++ [233]%N ++ runes_of_ascii """ :	f32a /// triple
+,[ ""x y"" , ""`tick`"" ] : falsey , ""x y""
+    //x
+    : Foo ,
+    7 : chars// c
+,""{,}""  :u128 , 255:
+A , } ,string
+//x
+// trailing space 
+T `
+` ,} /// triple")).
+Eval vm_compute in ("<<<M3710>>>" ++ check (runes_of_ascii "
+packet
+f32a{
+	}	MetaData
+
+x {	BodyLength
+zchar ,// @lengthOf(
+    }packet
+
+    metadata
+
+    {
+    @tag(
+7 ) @lengthOf(
+
+uint8x )body	{
+u8
+
+    Z9_	@calculatedFrom(  /// triple
+""it's"" )
+
+`u8 x,` 
     // @lengthOf(
-    , 65535 : i64_ [ 00 // `tick` ""quote"" 'q'
-, 1 ] : Z9_ [ // c
-""\n"",3,
-007 ]
-    :float ,
-} , }MetaData metadata {	char[]Header `" ++ [28040; 24687; 31867; 22411]%N ++ runes_of_ascii "` ,Foo stringy
-, uint64 body , f32	a1
-    , } packet
-    chars{ }")).
-Eval vm_compute in ("<<<M3602>>>" ++ check (runes_of_ascii "// top
-packet // c0
-FooBar // c1a
-  // c1b
-{ // c2
-u8 a , // c5a
-  // c5b
+	,	},float32
+	falsey 
+@lengthOf( u  //	t
+    ) `line1
+line2`
+
+,
+	} ")).
+Eval vm_compute in ("<<<M4453>>>" ++ check (runes_of_ascii "packet zchar {
+    char[] i64_,
+    // " ++ [128512]%N ++ runes_of_ascii " emoji
+    @calculatedFrom(""// no comment"")
+    match charz as tag {
+        [
+            ""it's"", 4294967296, ""a	b"", """ ++ [28040; 24687]%N ++ runes_of_ascii """, """ ++ [128512]%N ++ runes_of_ascii """,
+            255, 007
+        ] : i64_,
+        [0123456789, 3, 00] : Packet,
+        [""" ++ [233]%N ++ runes_of_ascii "t" ++ [233]%N ++ runes_of_ascii """] : a1,
+    },
+}")).
+Eval vm_compute in ("<<<M932>>>" ++ check (runes_of_ascii "packet Packet { f32a// @lengthOf(
+pack ,  @tag(00
+)@tag( //	t
+7  ) // @lengthOf(
+A @calculatedFrom( ""\" ++ [233]%N ++ runes_of_ascii """
+// " ++ [27880; 37322]%N ++ runes_of_ascii "
+// " ++ [128512]%N ++ runes_of_ascii " emoji
+) ,crc	stringy
+    ,	}	packet Packet
+{ i64 u8x `u8 x,`
+    , // " ++ [27880; 37322]%N ++ runes_of_ascii "
+@leftPad ( '\x00' )
+@lengthOf( MetaDataX ) @lengthOf(As ) chars o `" ++ [28040; 24687; 31867; 22411]%N ++ runes_of_ascii "` , }")).
+Eval vm_compute in ("<<<M1114>>>" ++ check (runes_of_ascii "
+packet calculatedFrom
+{
+@lengthOf( rootA
+    )
+    @tag( 0 )  repeat  lengthOf
+    // trailing space 
+    Pad `doc`,
+} // packet A { u8 x, }
+options
+    {
+lengthOf	= false x_y_z= true  ;_x = u8; zchar=
+    char[ 10 ] MetaDataX
+    =
+    true } packet	T { }")).
+Eval vm_compute in ("<<<M1600>>>" ++ check (runes_of_ascii "packet
+//	t
+// trailing space 
+_x {
+// packet A { u8 x, }
+// c
+char[
+3
+    ] u8x @lengthOf(
+u8x ) , @calculatedFrom(""" ++ [128512]%N ++ runes_of_ascii """ // @lengthOf(
+)
+i16	Foo
+@lengthOf(	string_
+    )`doc`	, repeat	repeat metadata , @lengthOf( string_
+) i8 // c
+u  `line1
+line2`	,
+}
+")).
+Eval vm_compute in ("<<<M1656>>>" ++ check (runes_of_ascii "packet
+//	t
+// trailing space 
+_x {
+// packet A { u8 x, }
+// c
+char[
+3
+    ] u8x @lengthOf(
+u8x ) , @calculatedFrom(""" ++ [128512]%N ++ runes_of_ascii """ // @lengthOf(
+)
+i16	Foo
+@lengthOf(	string_
+    )`doc`	, repeat	i64 metadata , `@lengthOf( string_
+) i8 // c
+u  `line1
+line2`	,
+}
+")).
+Eval vm_compute in ("<<<M1574>>>" ++ check (runes_of_ascii "packet
+//	t
+// trailing space 
+_x {
+// packet A { u8 x, }
+// c
+char[
+3
+    ] u8x @lengthOf(
+u8x ) , @calculatedFrom(""" ++ [128512]%N ++ runes_of_ascii """ // @lengthOf(
+)
+i16	Foo
+@lengthOf(	)
+    string_`doc`	, repeat	i64 metadata , @lengthOf( string_
+) i8 // c
+u  `line1
+line2`	,
+}
+")).
+Eval vm_compute in ("<<<M1607>>>" ++ check (runes_of_ascii "packet
+//	t
+// trailing space 
+_x {
+// packet A { u8 x, }
+// c
+char[
+3
+    ] u8x @lengthOf(
+u8x ) , @calculatedFrom(""" ++ [128512]%N ++ runes_of_ascii """ // @lengthOf(
+)
+i16	Foo
+@lengthOf(	string_
+    )`doc`	, repeat	i64 metadata  @lengthOf( string_
+) i8 // c
+u  `line1
+line2`	,
+}
+")).
+Eval vm_compute in ("<<<M1488>>>" ++ check (runes_of_ascii "
+//	t
+// trailing space 
+_x {
+// packet A { u8 x, }
+// c
+char[
+3
+    ] u8x @lengthOf(
+u8x ) , @calculatedFrom(""" ++ [128512]%N ++ runes_of_ascii """ // @lengthOf(
+)
+i16	Foo
+@lengthOf(	string_
+    )`doc`	, repeat	i64 metadata , @lengthOf( string_
+) i8 // c
+u  `line1
+line2`	,
+}
+")).
+Eval vm_compute in ("<<<M4182>>>" ++ check (runes_of_ascii "  // top
+	root// c0
+		packet
+
+// c1
+P// c2a
+  // c2b
+    {  // c3a
+    // c3b
+	hdr
+
+    { 	 // c5a
+// c5b
+	u8 	 // c6a
+  	// c6b
+      a
+	,
+    // c8
+	} 	 // c9a
+	// c9b
+    	, u8 // c11a
+  // c11b
+x
+        // c12
+	,
+    // c13
+}")).
+Eval vm_compute in ("<<<M4014>>>" ++ check (runes_of_ascii "packet matchKey {
+    // packet A { u8 x, }
+    zchar[65535] Foo @calculatedFrom(""\n"") ``,
+    @tag(10)
+    repeat x Logon `
+        `,
+    @calculatedFrom(""it's"")
+    @rightPad()
+    zchar[255] lengthOf,
+    repeat uint8x `" ++ [233]%N ++ runes_of_ascii "`,
+}")).
+Eval vm_compute in ("<<<M3587>>>" ++ check (runes_of_ascii "// top
+packet // c0a
+  // c0b
+order_item
+    // c1
+{ u8 // c3a
+  // c3b
+a ,
+    // c5
 } // c6a
   // c6b
-packet // c7a
-  // c7b
-foo_bar
-    // c8
-{ // c9a
-  // c9b
-u16
-    // c10
-b // c11a
-  // c11b
-, }
-    // c13
-root // c14
-packet // c15
-R // c16
-{
-    // c17
-FooBar // c18
-, // c19
-foo_bar
-    // c20
-, } ")).
-Eval vm_compute in ("<<<M3616>>>" ++ check (runes_of_ascii "
-options
-	{
-
-LittleEndian=
-
-true;
-StringPrefixLenType=
-
-u8;
-
-ArrayPrefixLenType=  u8;
-
-} packet
-Ack
-    {
-} root	packet Quote	{Ack,
-	InSym94
-	{  repeat
-Ack,} 
-,
-u16
-msgKind  , 
-u16
-OrderId @lengthOf(
-
-Body ) ,match msgKind
-    as 
-Body {
-[110
-	,
-48 
-]	: Ack
-
-    , }
-	,
-    }")).
-Eval vm_compute in ("<<<M3549>>>" ++ check (runes_of_ascii "packet B { // c2
-u8 a ,
-    // c5
-}
-    // c6
-root // c7
-packet P { u8
-    // c11
-K // c12
-, // c13
-match K as Body
-    // c17
-{ // c18a
-  // c18b
-1 : B // c21
-,
-    // c22
-} ,
-    // c24
-u16 // c25
-L // c26
-@lengthOf(
-    // c27
-Body // c28
-)
-    // c29
-, }
-    // c31
-")).
-Eval vm_compute in ("<<<M4369>>>" ++ check (runes_of_ascii "MetaData rootA
-
-    {  }
-
-    packet
-BodyLength	{
-
-    repeat 
-int32
-falsey
-    `a\`
-	, i64
-
-rootA
-
-@lengthOf(
-	falsey)
-
-, 
-}
 root
-
-    packet
-
-    x{	u64  A`" ++ [233]%N ++ runes_of_ascii "`
-, }
-	packet	// @lengthOf(
-BodyLength
-{ } 
-	    //x
-	options
-{
-    A= ""\n""
-
-    ; }")).
-Eval vm_compute in ("<<<M1528>>>" ++ check (runes_of_ascii "packet
-//	t
-// trailing space 
-_x {
-// packet A { u8 x, }
-// c
-char[
-3
-    ] u8x @lengthOf(
-u8x u8x ) , @calculatedFrom(""" ++ [128512]%N ++ runes_of_ascii """ // @lengthOf(
-)
-i16	Foo
-@lengthOf(	string_
-    )`doc`	, repeat	i64 metadata , @lengthOf( string_
-) i8 // c
-u  `line1
-line2`	,
-}
-")).
-Eval vm_compute in ("<<<M1655>>>" ++ check (runes_of_ascii "packet
-//	t
-// trailing space 
-_x {
-// packet A { u8 x, }
-// c
-char[
-3
-    ] u8x @lengthOf(
-u8x ) < , @calculatedFrom(""" ++ [128512]%N ++ runes_of_ascii """ // @lengthOf(
-)
-i16	Foo
-@lengthOf(	string_
-    )`doc`	, repeat	i64 metadata , @lengthOf( string_
-) i8 // c
-u  `line1
-line2`	,
-}
-")).
-Eval vm_compute in ("<<<M1519>>>" ++ check (runes_of_ascii "packet
-//	t
-// trailing space 
-_x {
-// packet A { u8 x, }
-// c
-char[
-3
-    ] @lengthOf( u8x
-u8x ) , @calculatedFrom(""" ++ [128512]%N ++ runes_of_ascii """ // @lengthOf(
-)
-i16	Foo
-@lengthOf(	string_
-    )`doc`	, repeat	i64 metadata , @lengthOf( string_
-) i8 // c
-u  `line1
-line2`	,
-}
-")).
-Eval vm_compute in ("<<<M75>>>" ++ check (runes_of_ascii "MetaData calculatedFrom { // @lengthOf(
-tag a1
-, uint8 _x`crlf
-line`,
-// " ++ [27880; 37322]%N ++ runes_of_ascii "
-// packet A { u8 x, }
-string
-    Z9_ ,uint8x A`line1
-line2` ,char falsey , packetx Foo
-,  }
-MetaData body {
-string x_y_z``
-    , falsey zchar `line1
-line2` , } options{ }
-")).
-Eval vm_compute in ("<<<M4391>>>" ++ check (runes_of_ascii "
-packet roots
-{
-    @lengthOf(
-
-pack)
-    @tag(
-
-    4294967296	// c
-		) As i8i8 // @lengthOf(
-    `line1
-line2` ,  repeat  Header  A  ,
-    @lengthOf(
-
-    roots  ) 
-@lengthOf(  packetx)	@tag(	// trailing space 
-	42)
-
-repeat int8 Logon 
-,}
-")).
-Eval vm_compute in ("<<<M1522>>>" ++ check (runes_of_ascii "packet
-//	t
-// trailing space 
-_x {
-// packet A { u8 x, }
-// c
-char[
-3
-    ] u8x 
-u8x ) , @calculatedFrom(""" ++ [128512]%N ++ runes_of_ascii """ // @lengthOf(
-)
-i16	Foo
-@lengthOf(	string_
-    )`doc`	, repeat	i64 metadata , @lengthOf( string_
-) i8 // c
-u  `line1
-line2`	,
-}
-")).
-Eval vm_compute in ("<<<M1230>>>" ++ check (runes_of_ascii "root packet roots { } // `tick` ""quote"" 'q'
-MetaData As
-{ string u
-`{ , }` ,	zchar[ 3 ]
-x_y_z, i32 roots ,
-u16 rootA
-    `line1
-line2` ,
-// `tick` ""quote"" 'q'
-// a // b
-i32// @lengthOf(
-matchKey
-    `doc`, u _x //	t
-`{ , }` , }
-")).
-Eval vm_compute in ("<<<M3988>>>" ++ check (runes_of_ascii "packet _x {
-    // packet A { u8 x, }
+    // c7
+packet // c8a
+  // c8b
+new_order // c9a
+  // c9b
+{ order_item
+    // c11
+,
+    // c12
+u8 x // c14
+, } ")).
+Eval vm_compute in ("<<<M718>>>" ++ check (runes_of_ascii "packet stringy {
+    u @calculatedFrom(""" ++ [233]%N ++ runes_of_ascii "t" ++ [233]%N ++ runes_of_ascii """
+), repeat
+pack string_ , zchar[7
+]x_y_z  , }
+    options{ Pad
+= false _x =
+    ""\" ++ [233]%N ++ runes_of_ascii """ ;
+}MetaData zchar {
+    uint8 trueish `it's` ,char[ 65535]
+uint8x ,  stringy tag ,}")).
+Eval vm_compute in ("<<<M1804>>>" ++ check (runes_of_ascii "options { trueish = ""`tick`"" ; string_= """ ++ [233]%N ++ runes_of_ascii "t" ++ [233]%N ++ runes_of_ascii """
     // c
-    char[3] u8x @lengthOf(u8x),
-    @calculatedFrom(""" ++ [128512]%N ++ runes_of_ascii """)
-    i16 Foo @lengthOf(string_) `doc`,
-    repeat i64 metadata,
-    @lengthOf(string_)
-    i8 u `line1
-        line2`,
-}")).
-Eval vm_compute in ("<<<M203>>>" ++ check (runes_of_ascii "packet u128  { @calculatedFrom(
-""a	b"" ) repeat  uint8x u128
-`line1
-line2`  , }
-    packet string_ { @calculatedFrom(
-// `tick` ""quote"" 'q'
-// packet A { u8 x, }
-""" ++ [128512]%N ++ runes_of_ascii """ )
-uint8 Pad
-    @lengthOf(
-    o )
-`{ , }`, }")).
-Eval vm_compute in ("<<<M9>>>" ++ check (runes_of_ascii "options
-    {
-As= ""1"" ; matchKey = 0123456789 options1
-    =
-0123456789 ;// a // b
-asx// c
-=
-    ""CRC32"" ;
-    tag =00;
-}// trailing space 
-packet
-matchKey { @calculatedFrom(
-    ""abc""	) int32 repeatCount ,
+    } root
+    packet body { stringy @calculatedFrom(
+""a	b"" ) `line1
+line2` , }
+packet Logon {
+    @leftPad(
+    0123456789 ) //	t
+u16 string_ `u8 x,` ,
 }
 ")).
 Eval vm_compute in ("<<<M331>>>" ++ check (runes_of_ascii "options {
@@ -2797,22 +2525,22 @@ packet Logon {
 u16 string_ `u8 x,` ,
 }
 ")).
-Eval vm_compute in ("<<<M1806>>>" ++ check (runes_of_ascii "options { trueish = ""`tick`"" ; string_= """ ++ [233]%N ++ runes_of_ascii "t" ++ [233]%N ++ runes_of_ascii """
+Eval vm_compute in ("<<<M1796>>>" ++ check (runes_of_ascii "options { trueish = ""`tick`"" ; string_= """ ++ [233]%N ++ runes_of_ascii "t" ++ [233]%N ++ runes_of_ascii """
     // c
     } root
     packet body { stringy @calculatedFrom(
 ""a	b"" ) `line1
 line2` , }
 packet Logon {
-    @leftPad(
-    ' '  //	t
+    @leftPad
+    ' ' ) //	t
 u16 string_ `u8 x,` ,
 }
 ")).
-Eval vm_compute in ("<<<M1749>>>" ++ check (runes_of_ascii "options { trueish = ""`tick`"" ; string_= """ ++ [233]%N ++ runes_of_ascii "t" ++ [233]%N ++ runes_of_ascii """
+Eval vm_compute in ("<<<M1726>>>" ++ check (runes_of_ascii "options { trueish = ""`tick`"" ; string_= """ ++ [233]%N ++ runes_of_ascii "t" ++ [233]%N ++ runes_of_ascii """
     // c
     } root
-    packet body { stringy @lengthOf(
+     body { stringy @calculatedFrom(
 ""a	b"" ) `line1
 line2` , }
 packet Logon {
@@ -2821,43 +2549,54 @@ packet Logon {
 u16 string_ `u8 x,` ,
 }
 ")).
-Eval vm_compute in ("<<<M326>>>" ++ check (runes_of_ascii "// @lengthOf(
-root packet
-MetaDataX{
-    repeat
-i16
-packetx, @tag( 007 )
-x
-    @lengthOf(
-_x
-)
-,
-@calculatedFrom(  """ ++ [28040; 24687]%N ++ runes_of_ascii """ ) repeat
-Pad ,	@lengthOf(
-falsey) @tag( 00 ) @tag( 3
-    )string i8i8,}")).
-Eval vm_compute in ("<<<M277>>>" ++ check (runes_of_ascii "// " ++ [128512]%N ++ runes_of_ascii " emoji
-MetaData trueish {
-    // @lengthOf(
-    asx lengthOf
-    // a // b
-    , int8 // c
-float`it's`
-,}
-MetaData
-int{ int8
-charz ,} packet asx { o @calculatedFrom(
-""\" ++ [233]%N ++ runes_of_ascii """
-    ) ,
+Eval vm_compute in ("<<<M4003>>>" ++ check (runes_of_ascii "// top
+packet metadata {
+    // c2
+    Logon {
+        // c4
+        A `" ++ [28040; 24687; 31867; 22411]%N ++ runes_of_ascii "`,
+        // c7
+        tag o,
+        // c10
+    },
+    // c12
+    zchar len `// not a comment`,
+    // c16
 }
+// c17")).
+Eval vm_compute in ("<<<M4223>>>" ++ check (runes_of_ascii "
+packet  falsey
+
+    {
+}
+    packet
+
+    stringy 
+{ repeatCount	//	t
+
+	@calculatedFrom(
+""a	b""	//x
+    ) ,
+
+@lengthOf( string_  )
+    repeat 
+i64_ metadata`
+`  /// triple
+      , }
+
 ")).
-Eval vm_compute in ("<<<M295>>>" ++ check (runes_of_ascii "  MetaData x_y_z { string msg_type`" ++ [233]%N ++ runes_of_ascii "`, } packet chars{ repeat i32 metadata`say ""hi""` ,@leftPad ( ) @tag( 0123456789
-)repeat zchar[
-    // a // b
-    007]
-    //x
-    lengthOf , }
-")).
+Eval vm_compute in ("<<<M4095>>>" ++ check (runes_of_ascii "packet Z9_ {
+}// " ++ [27880; 37322]%N ++ runes_of_ascii "
+
+MetaData packetx {
+    u8 x_y_z `it's`,
+}
+
+packet options1 {
+    uint16 rootA `" ++ [28040; 24687; 31867; 22411]%N ++ runes_of_ascii "`,// " ++ [128512]%N ++ runes_of_ascii " emoji
+    repeat string stringy `" ++ [233]%N ++ runes_of_ascii "`,
+    char[] repeatCount `" ++ [28040; 24687; 31867; 22411]%N ++ runes_of_ascii "`,
+}")).
 Eval vm_compute in ("<<<M1815>>>" ++ check (runes_of_ascii "options { trueish = ""`tick`"" ; string_= """ ++ [233]%N ++ runes_of_ascii "t" ++ [233]%N ++ runes_of_ascii """
     // c
     } root
@@ -2867,196 +2606,44 @@ line2` , }
 packet Logon {
     @leftPad(
     ' ' )")).
-Eval vm_compute in ("<<<M857>>>" ++ check (runes_of_ascii "packet  MetaDataX
+Eval vm_compute in ("<<<M249>>>" ++ check (runes_of_ascii "
+root packet /// triple
+Foo { int32 tag
+    `doc` , char[0
+    ]
+    u8x`u8 x,`
+, charz charz
+    , @rightPad(' ')@tag( 3 ) @rightPad	('0' )
+repeat
+int16	float ,}
+")).
+Eval vm_compute in ("<<<M1048>>>" ++ check (runes_of_ascii "packet falsey { }
+    packet
+    stringy
+    { repeatCount //	t
+@calculatedFrom(  ""a	b"" //x
+) ,
+@lengthOf( string_ )
+    repeat i64_ metadata
+`
+` /// triple
+, }
+")).
+Eval vm_compute in ("<<<M455>>>" ++ check (runes_of_ascii "root packet
+repeatCount {  }
+    MetaData // a // b
+crc
 {
-char
-    falsey,
-    zchar[ 1
-]a1 @calculatedFrom( ""a\\""
-), }packet
-calculatedFrom{ zchar[42 ]
-_x `tab	here` , string roots@lengthOf( chars) , }")).
-Eval vm_compute in ("<<<M1083>>>" ++ check (runes_of_ascii "// c
-options
-    //	t
-    {
-// `tick` ""quote"" 'q'
-/// triple
-repeatCount =
-    00 tag
-= ""{,}""MetaDataX = '0'o=
-""`tick`""
-//x
-// `tick` ""quote"" 'q'
-a1 = ""abc""
-}
-")).
-Eval vm_compute in ("<<<M2137>>>" ++ check (runes_of_ascii "options{
-_x
-= true
-} options
-{ o	= /// triple
-false
-    ; `two words`
-= ""\n"" } root packet	Pad
-/// triple
-// packet A { u8 x, }
-{	chars
-    // a // b
-    ,}")).
-Eval vm_compute in ("<<<M2322>>>" ++ check (runes_of_ascii "// c
-packet x { @lengthOf( metadata "" ) repeat lengthOf
-,a1{
-trueish	,// c
-repeat//	t
-MetaDataX , } , zchar[
-    42	] rootA // `tick` ""quote"" 'q'
+float32 x ,	float64 falsey `
+` , //x
+u32 //
+f32a`" ++ [233]%N ++ runes_of_ascii "` ,uint16 MetaDataX
 ,
+}options	{ len
+= 10
     }
 ")).
-Eval vm_compute in ("<<<M2081>>>" ++ check (runes_of_ascii "options{ {
-_x
-= true
-} options
-{ o	= /// triple
-false
-    ; chars
-= ""\n"" } root packet	Pad
-/// triple
-// packet A { u8 x, }
-{	chars
-    // a // b
-    ,}")).
-Eval vm_compute in ("<<<M2415>>>" ++ check (runes_of_ascii "// c
-packet x { @lengthOf( metadata ) repeat lengthOf
-,{a1
-trueish	,// c
-repeat//	t
-MetaDataX , } , zchar[
-    42	] rootA // `tick` ""quote"" 'q'
-,
-    }
-")).
-Eval vm_compute in ("<<<M2086>>>" ++ check (runes_of_ascii "options{
-=
-_x true
-} options
-{ o	= /// triple
-false
-    ; chars
-= ""\n"" } root packet	Pad
-/// triple
-// packet A { u8 x, }
-{	chars
-    // a // b
-    ,}")).
-Eval vm_compute in ("<<<M2089>>>" ++ check (runes_of_ascii "options{
-_x
- true
-} options
-{ o	= /// triple
-false
-    ; chars
-= ""\n"" } root packet	Pad
-/// triple
-// packet A { u8 x, }
-{	chars
-    // a // b
-    ,}")).
-Eval vm_compute in ("<<<M2318>>>" ++ check (runes_of_ascii "// c
-packet x { @lengthOf( metadata ) repeat lengthOf
-,a1{
-trueish	,// c
-repeat//	t
-MetaDataX , } , zchar[
-    42	]  // `tick` ""quote"" 'q'
-,
-    }
-")).
-Eval vm_compute in ("<<<M3585>>>" ++ check (runes_of_ascii "
-packet A
-    { 
-u8	a
-,	} packet
-    B{  u16 b, } root	packet 
-P
-	{ u8  K , match  K
-as M
-	{
-
-[
-
-    1, 2	] :	A	,
-
-3
-    : B ,
-7:
-A  , }  , }
-")).
-Eval vm_compute in ("<<<M852>>>" ++ check (runes_of_ascii "MetaData calculatedFrom{
-// @lengthOf(
-// a // b
-string Packet // a // b
-,
-zchar[
-    42
-    ] msg_type , char[
-    3] u128
-, i16 f32a , }
-
-")).
-Eval vm_compute in ("<<<M4249>>>" ++ check (runes_of_ascii "packet A {
-    match k as n {
-        [
-            ""a"", ""bb"", ""c c"", ""d"", ""e"",
-            ""f"", ""g""
-        ] : B,
-        2 : C,
-    },
-}")).
-Eval vm_compute in ("<<<M1464>>>" ++ check (runes_of_ascii "
-packet
-    falsey { Header@calculatedFrom(""packet""  ) , char[
-    0123456789 ] packetx
-    , @calculatedFrom( // `tick` ""quote"" 'q'")).
-Eval vm_compute in ("<<<M1443>>>" ++ check (runes_of_ascii "
-packet
-    falsey { Header@calculatedFrom(""packet""  ) , char[
-    0123456789 0123456789 ] packetx
-    , } // `tick` ""quote"" 'q'")).
-Eval vm_compute in ("<<<M3021>>>" ++ check (runes_of_ascii "packet A {
-    u16 len @lengthOf(body) `a
-    b
-  c`,
-    u32 crc @calculatedFrom(""CRC32"") `a
-    b
-  c`,
-    string body,
-}")).
-Eval vm_compute in ("<<<M3898>>>" ++ check (runes_of_ascii "packet rootA {
-}
-
-// `tick` ""quote"" 'q'
-/// triple
-options {
-    stringy = 0123456789;
-    T = 42;
-    string_ = ""a\""b"";
-}")).
-Eval vm_compute in ("<<<M3337>>>" ++ check (runes_of_ascii "root packet matchKey { zchar[ 3 ] pack @calculatedFrom( ""a	b"" ) `doc` ,
-// c
-} options { } MetaData A { int8 msg_type , }")).
-Eval vm_compute in ("<<<M1433>>>" ++ check (runes_of_ascii "
-packet
-    falsey { Header@calculatedFrom(""packet""  ) , , char[
-    0123456789 ] packetx
-    , } // `tick` ""quote"" 'q'")).
-Eval vm_compute in ("<<<M1405>>>" ++ check (runes_of_ascii "
-packet
-    uint32 { Header@calculatedFrom(""packet""  ) , char[
-    0123456789 ] packetx
-    , } // `tick` ""quote"" 'q'")).
-Eval vm_compute in ("<<<M1551>>>" ++ check (runes_of_ascii "packet
+Eval vm_compute in ("<<<M1576>>>" ++ check (runes_of_ascii "packet
 //	t
 // trailing space 
 _x {
@@ -3065,139 +2652,295 @@ _x {
 char[
 3
     ] u8x @lengthOf(
-u8x ) , @calculatedFrom(")).
-Eval vm_compute in ("<<<M2424>>>" ++ check (runes_of_ascii "// c
+u8x ) , @calculatedFrom(""" ++ [128512]%N ++ runes_of_ascii """ // @lengthOf(
+)
+i16	Foo
+@lengthOf(")).
+Eval vm_compute in ("<<<M2419>>>" ++ check (runes_of_ascii "// c
+packe#t x { @lengthOf( metadata ) repeat lengthOf
+,a1{
+trueish	,// c
+repeat//	t
+MetaDataX , } , zchar[
+    42	] rootA // `tick` ""quote"" 'q'
+,
+    }
+")).
+Eval vm_compute in ("<<<M2382>>>" ++ check (runes_of_ascii "// c
+packet { x @lengthOf( metadata ) repeat lengthOf
+,a1{
+trueish	,// c
+repeat//	t
+MetaDataX , } , zchar[
+    42	] rootA // `tick` ""quote"" 'q'
+,
+    }
+")).
+Eval vm_compute in ("<<<M4590>>>" ++ check (runes_of_ascii "
+MetaData u { 
+BodyLength
+    repeatCount	// packet A { u8 x, }
+  ,
+} 
+options {
+	string_
+
+= 
+false;
+
+i8i8  =  10  ; 
+} root
+
+packet float {
+    }  //
+ 
+")).
+Eval vm_compute in ("<<<M2373>>>" ++ check (runes_of_ascii "// c
 packet x { @lengthOf( metadata ) repeat lengthOf
 ,a1{
 trueish	,// c
 repeat//	t
 MetaDataX , } , zchar[
-    ")).
-Eval vm_compute in ("<<<M3027>>>" ++ check (runes_of_ascii "packet A {
-    u16 len @lengthOf(body) `a
-
-b`,
-    u32 crc @calculatedFrom(""CRC32"") `a
-
-b`,
-    string body,
-}")).
-Eval vm_compute in ("<<<M4098>>>" ++ check (runes_of_ascii "
-// trailing space 
-		MetaData 
-u8x {
-
-i64_
-i64_
-	`doc`	,
-i16
-	Z9_
-`say ""hi""` 
+    	] rootA // `tick` ""quote"" 'q'
 ,
-BodyLength
-	roots 
-,	}")).
-Eval vm_compute in ("<<<M3569>>>" ++ check (runes_of_ascii "// top
-root // c0a
-  // c0b
-packet P // c2a
-  // c2b
-{ // c3
-string
-    // c4
-s
-    // c5
-,
-    // c6
-} ")).
-Eval vm_compute in ("<<<M3004>>>" ++ check (runes_of_ascii "packet A {
-    Inner {
-        u8 x `a
-b`,
-        Deep {
-            u8 y `a
-b`,
-        },
-    },
-}")).
-Eval vm_compute in ("<<<M46>>>" ++ check (runes_of_ascii "packet rootA{ }
-options
-{ uint8x =//	t
-u32 ; i64_
-=	255 ;
-len
-    = ' '
-    ;
-    } // @lengthOf(")).
-Eval vm_compute in ("<<<M2627>>>" ++ check (runes_of_ascii "packet A { @rightPad(' ') @lengthOf(b) @calculatedFrom(""c"") @tag(007) match k as n { 1 : B }, }")).
-Eval vm_compute in ("<<<M3532>>>" ++ check (runes_of_ascii "
-
-  options
-{
-	LittleEndian
-    =	true
-; }	root packet
-
-P
-
-    {repeat  char cs,u8
-x	, 
-}")).
-Eval vm_compute in ("<<<M1063>>>" ++ check (runes_of_ascii "root packet
-    calculatedFrom { uint8
-pack  @lengthOf(
-crc )//
-`// not a comment`
-    ,}
+    }
 ")).
-Eval vm_compute in ("<<<M3273>>>" ++ check (runes_of_ascii "MetaData float { // c
-float64 charz `
-` , } root packet chars { @rightPad ( '0' ) Foo , }")).
-Eval vm_compute in ("<<<M3483>>>" ++ check (runes_of_ascii "// c
-packet chars { } packet MetaDataX { @tag( 42 ) i16 string_ , repeat x `say ""hi""` , }")).
-Eval vm_compute in ("<<<M3516>>>" ++ check (runes_of_ascii "packet chars { } packet MetaDataX { @tag( 42 ) i16 string_ , repeat x `say ""hi""`
+Eval vm_compute in ("<<<M60>>>" ++ check (runes_of_ascii "MetaData crc // trailing space 
+{}options
+{ metadata = 10 ; u = 65535
+repeatCount
+    = char[ 0123456789 // packet A { u8 x, }
+]  }MetaData i8i8{ }
+")).
+Eval vm_compute in ("<<<M15>>>" ++ check (runes_of_ascii "options { matchKey
+    =
+10 } MetaData options1{
+    matchKey o `doc` , rootA tag
+,uint32 _x /// triple
+`line1
+line2`, char[] chars `say ""hi""`,  }")).
+Eval vm_compute in ("<<<M743>>>" ++ check (runes_of_ascii "
+MetaData
+    A{ calculatedFrom
+falsey `line1
+line2` , //x
+char[ 255 ]T
+    `
+` , float32 Logon ,
+    stringy
+i8i8 ,
+char[]rootA
+`{ , }` , }
+")).
+Eval vm_compute in ("<<<M417>>>" ++ check (runes_of_ascii "  options {  }
+root  packet i8i8 { } packet
+asx {
+    f64
+pack,@calculatedFrom( ""a\\""	)zchar[	255	]rootA `it's`
+    // c
+    , // " ++ [27880; 37322]%N ++ runes_of_ascii "
+} // " ++ [27880; 37322]%N)).
+Eval vm_compute in ("<<<M1561>>>" ++ check (runes_of_ascii "packet
+//	t
+// trailing space 
+_x {
+// packet A { u8 x, }
 // c
-, }")).
-Eval vm_compute in ("<<<M1461>>>" ++ check (runes_of_ascii "
-packet
-    falsey { Header@calculatedFrom(""packet""  ) , char[
-    0123456789 ] packetx")).
-Eval vm_compute in ("<<<M1270>>>" ++ check (runes_of_ascii "MetaData
-T { uint16
-roots ,As lengthOf , As
-trueish
-    , char[]//
-Packet ,
-    } 	 ")).
-Eval vm_compute in ("<<<M3223>>>" ++ check (runes_of_ascii "packet metadata { Logon { A // c
-`" ++ [28040; 24687; 31867; 22411]%N ++ runes_of_ascii "` , tag o , } , zchar len `// not a comment` , }")).
-Eval vm_compute in ("<<<M1015>>>" ++ check (runes_of_ascii "// trailing space 
-packet Pad  {
-@lengthOf( asx
-    ) repeat
-char[ 3
-    ] u128 ,
+char[
+3
+    ] u8x @lengthOf(
+u8x ) , @calculatedFrom(""" ++ [128512]%N ++ runes_of_ascii """ // @lengthOf(
+)")).
+Eval vm_compute in ("<<<M670>>>" ++ check (runes_of_ascii "//	t
+MetaData asx
+{
+zchar Packet `" ++ [233]%N ++ runes_of_ascii "` ,	zchar[ 42 ]
+f32a
+    , } options {
+    // packet A { u8 x, }
+    tag=
+    ""\n"" ;
+    }
+")).
+Eval vm_compute in ("<<<M4360>>>" ++ check (runes_of_ascii "root packet matchKey {
+    zchar[3] pack @calculatedFrom(""a	b"") `doc`,
+}
+
+options {
+}
+
+MetaData A {
+    int8 msg_type,
+}
+// c")).
+Eval vm_compute in ("<<<M3358>>>" ++ check (runes_of_ascii "root packet matchKey { zchar[ 3 ] pack @calculatedFrom( ""a	b"" ) `doc` , } options { } MetaData A { int8 msg_type , } // c
+")).
+Eval vm_compute in ("<<<M3331>>>" ++ check (runes_of_ascii "root packet matchKey { zchar[ 3 ] pack @calculatedFrom( ""a	b""
+// c
+) `doc` , } options { } MetaData A { int8 msg_type , }")).
+Eval vm_compute in ("<<<M649>>>" ++ check (runes_of_ascii "root packet
+string_{
+@calculatedFrom( ""`tick`"" )
+    uint8 stringy `a\` //
+, int16 Packet @calculatedFrom( ""it's"" ), }")).
+Eval vm_compute in ("<<<M3553>>>" ++ check (runes_of_ascii "
+
+  packet B
+
+{
+
+u8
+    a
+    , string
+s	,
+}
+
+root  packet P
+
+{
+	u16 
+L
+@lengthOf(B ) ,	B,
+
+    u8
+    t
+    ,
 }
 ")).
-Eval vm_compute in ("<<<M3443>>>" ++ check (runes_of_ascii "packet o { repeat Logon uint8x , } // c
-options { asx = zchar[ 3 ] stringy = '\x00' }")).
-Eval vm_compute in ("<<<M2950>>>" ++ check (runes_of_ascii "packet A {
+Eval vm_compute in ("<<<M629>>>" ++ check (runes_of_ascii "
+options
+{stringy= 7
+    ;
+    float = 0 ;tag //	t
+=	42
+    charz =
+char[ 00
+    ] msg_type = ""CRC32"" } /// triple")).
+Eval vm_compute in ("<<<M6>>>" ++ check (runes_of_ascii "root	packet
+    charz { // " ++ [128512]%N ++ runes_of_ascii " emoji
+repeat char[65535
+]
+options1,} options  { As=
+    //
+    ""\n""
+    } // a // b")).
+Eval vm_compute in ("<<<M1420>>>" ++ check (runes_of_ascii "
+packet
+    falsey { Header MetaData""packet""  ) , char[
+    0123456789 ] packetx
+    , } // `tick` ""quote"" 'q'")).
+Eval vm_compute in ("<<<M2995>>>" ++ check (runes_of_ascii "packet A {
   match k as n {
-    [1, 22, 007, 4, 5, 66, 7, 8, 9] : B
+    [""a"", 22, ""c c"", 4, ""e"", 66, ""g"", 8, ""i"", 10, ""k"", 12] : B
     2 : C
   },
 }")).
-Eval vm_compute in ("<<<M2276>>>" ++ check (runes_of_ascii "options
-{ } options { BodyLength= u16 Header= f64 ; u128 =
-    
-    ; } // a // b")).
-Eval vm_compute in ("<<<M3420>>>" ++ check (runes_of_ascii "MetaData body { i64 pack `it's` , } packet stringy { int16 calculatedFrom , // c
+Eval vm_compute in ("<<<M3911>>>" ++ check (runes_of_ascii "packet chars	{
+}
+packet
+MetaDataX
+	{	@tag(
+	42 )
+    i16
+string_, 
+repeat// c
+	  x `say ""hi""` 
+,  }
+")).
+Eval vm_compute in ("<<<M4451>>>" ++ check (runes_of_ascii "
+// " ++ [27880; 37322]%N ++ runes_of_ascii "
+	  MetaData  msg_type {
+}MetaData 
+Pad
+{ int64 Header ,}
+    MetaData
+matchKey	{
+
+    } //
+")).
+Eval vm_compute in ("<<<M4230>>>" ++ check (runes_of_ascii "
+MetaData  body { 	 // c
+	  i64 pack 
+`it's`  ,  }
+	packet
+    stringy	{	int16	calculatedFrom , }
+")).
+Eval vm_compute in ("<<<M3677>>>" ++ check (runes_of_ascii "
+MetaData stringy	{
+	zchar[4294967296	]	charz ,
+string// `tick` ""quote"" 'q'
+	x_y_z,
+
+    }
+")).
+Eval vm_compute in ("<<<M2946>>>" ++ check (runes_of_ascii "packet A {
+  match k as n {
+    [""a"", ""bb"", 007, ""d"", ""e"", 66, ""g"", ""h""] : B,
+    2 : C
+  },
 }")).
-Eval vm_compute in ("<<<M1331>>>" ++ check (runes_of_ascii "MetaData  options1
-    { i8 falsey ,
-    int8  Foo `
-` , }
-root packet asx{} 	 ")).
+Eval vm_compute in ("<<<M2953>>>" ++ check (runes_of_ascii "packet A {
+  match k as n {
+    [1, ""bb"", 007, ""d"", 5, ""f"", 7, ""h"", 9] : B,
+    2 : C
+  },
+}")).
+Eval vm_compute in ("<<<M2957>>>" ++ check (runes_of_ascii "packet A {
+  match k as n {
+    [1, 22, ""c c"", 4, 5, ""f"", 7, 8, ""i""] : B,
+    2 : C
+  },
+}")).
+Eval vm_compute in ("<<<M3279>>>" ++ check (runes_of_ascii "MetaData float { float64 charz `
+` // c
+, } root packet chars { @rightPad ( '0' ) Foo , }")).
+Eval vm_compute in ("<<<M3490>>>" ++ check (runes_of_ascii "packet chars {
+// c
+} packet MetaDataX { @tag( 42 ) i16 string_ , repeat x `say ""hi""` , }")).
+Eval vm_compute in ("<<<M4070>>>" ++ check (runes_of_ascii "packet A {
+    match k as n {
+        [1, ""bb"", 007, ""d"", 5] : B,
+        2 : C,
+    },
+}")).
+Eval vm_compute in ("<<<M2296>>>" ++ check (runes_of_ascii "options
+{ } options { ""BodyLength= u16 Header= f64 ; u128 =
+    true
+    ; } // a // b")).
+Eval vm_compute in ("<<<M2223>>>" ++ check (runes_of_ascii "options
+{ } { options BodyLength= u16 Header= f64 ; u128 =
+    true
+    ; } // a // b")).
+Eval vm_compute in ("<<<M3230>>>" ++ check (runes_of_ascii "packet metadata { Logon { A `" ++ [28040; 24687; 31867; 22411]%N ++ runes_of_ascii "` , tag
+// c
+o , } , zchar len `// not a comment` , }")).
+Eval vm_compute in ("<<<M2271>>>" ++ check (runes_of_ascii "options
+{ } options { BodyLength= u16 Header= f64 ; u128 
+    true
+    ; } // a // b")).
+Eval vm_compute in ("<<<M3453>>>" ++ check (runes_of_ascii "packet o { repeat Logon uint8x , } options { asx = zchar[ // c
+3 ] stringy = '\x00' }")).
+Eval vm_compute in ("<<<M832>>>" ++ check (runes_of_ascii "options
+{A =
+char ; } MetaData// @lengthOf(
+metadata { crc matchKey `u8 x,` ,
+    }")).
+Eval vm_compute in ("<<<M3396>>>" ++ check (runes_of_ascii "MetaData body // c
+{ i64 pack `it's` , } packet stringy { int16 calculatedFrom , }")).
+Eval vm_compute in ("<<<M507>>>" ++ check (runes_of_ascii "packet packetx
+    {
+// trailing space 
+/// triple
+@calculatedFrom( """" ) Z9_ , }
+")).
+Eval vm_compute in ("<<<M2163>>>" ++ check (runes_of_ascii "options{
+_x
+= true
+} options
+{ o	= /// triple
+false
+    ; chars
+= ""\n"" } root")).
 Eval vm_compute in ("<<<M1521>>>" ++ check (runes_of_ascii "packet
 //	t
 // trailing space 
@@ -3207,112 +2950,115 @@ _x {
 char[
 3
     ]")).
-Eval vm_compute in ("<<<M2888>>>" ++ check (runes_of_ascii "packet A {
-  match k as n {
-    [1, ""bb"", 007, ""d""] : B,
-    2 : C
-  },
-}")).
-Eval vm_compute in ("<<<M2877>>>" ++ check (runes_of_ascii "packet A {
-  match k as n {
-    [""a"", 22, ""c c""] : B,
-    2 : C
-  },
-}")).
-Eval vm_compute in ("<<<M2948>>>" ++ check (runes_of_ascii "packet A { Inner { match k as n { [1,22,007,4,5,66,7,8] : B, }, }, }")).
-Eval vm_compute in ("<<<M1388>>>" ++ check (runes_of_ascii "// trailing space 
-MetaData body { int32
-    MetaDataX
-, As x ,}")).
-Eval vm_compute in ("<<<M2866>>>" ++ check (runes_of_ascii "packet A {
-  match k as n {
-    [1, ""bb""] : B,
-    2 : C
-  },
-}")).
-Eval vm_compute in ("<<<M1725>>>" ++ check (runes_of_ascii "options { trueish = ""`tick`"" ; string_= """ ++ [233]%N ++ runes_of_ascii "t" ++ [233]%N ++ runes_of_ascii """
-    // c
-    }")).
-Eval vm_compute in ("<<<M3249>>>" ++ check (runes_of_ascii "// top
-root // c0
-packet // c1
-pack // c2
-{ // c3
-} // c4
-")).
-Eval vm_compute in ("<<<M2275>>>" ++ check (runes_of_ascii "options
-{ } options { BodyLength= u16 Header= f64 ; u128")).
-Eval vm_compute in ("<<<M2793>>>" ++ check (runes_of_ascii "zchar[ 0123456789 = string uint32 @lengthOf( options ;")).
-Eval vm_compute in ("<<<M3733>>>" ++ check (runes_of_ascii "MetaData u {
+Eval vm_compute in ("<<<M2692>>>" ++ check (runes_of_ascii "match , char uint64 MetaData @tag( @tag( uint16 [ packet int16 MetaData )")).
+Eval vm_compute in ("<<<M1119>>>" ++ check (runes_of_ascii "MetaData
+    // a // b
+    options1 { Pad
+options1	,// " ++ [27880; 37322]%N ++ runes_of_ascii "
 }
+// " ++ [128512]%N ++ runes_of_ascii " emoji
+")).
+Eval vm_compute in ("<<<M1914>>>" ++ check (runes_of_ascii "MetaData
+    u { }  options {
+// c
+// @lengthOf(
+float = int8 ;rootA")).
+Eval vm_compute in ("<<<M4459>>>" ++ check (runes_of_ascii "
 
-packet Header {
-    i64 Logon ``,
-}")).
-Eval vm_compute in ("<<<M827>>>" ++ check (runes_of_ascii "MetaData
-zchar{zchar[
-    // " ++ [27880; 37322]%N ++ runes_of_ascii "
-    7 ] crc,
-}
+  options
+
+{
+body  =
+	false 
+;  }
+	    // `tick` ""quote"" 'q'
 ")).
-Eval vm_compute in ("<<<M1123>>>" ++ check (runes_of_ascii "packet
-    string_{  int64	calculatedFrom , }")).
-Eval vm_compute in ("<<<M2562>>>" ++ check (runes_of_ascii "packet A { repeat match k as n { 1 : B }, }")).
-Eval vm_compute in ("<<<M3024>>>" ++ check (runes_of_ascii "root packet A {
+Eval vm_compute in ("<<<M2708>>>" ++ check (runes_of_ascii "[ '0' packet Logon char @lengthOf( ) ; ) MetaData ; int16 f64 (")).
+Eval vm_compute in ("<<<M3023>>>" ++ check (runes_of_ascii "MetaData M {
     u8 x `a
     b
   c`,
+    T t `a
+    b
+  c`,
 }")).
-Eval vm_compute in ("<<<M3769>>>" ++ check (runes_of_ascii "options
-
-    {  Header =  '\x00'
-;}
-
+Eval vm_compute in ("<<<M2138>>>" ++ check (runes_of_ascii "options{
+_x
+= true
+} options
+{ o	= /// triple
+false
+    ;")).
+Eval vm_compute in ("<<<M3686>>>" ++ check (runes_of_ascii "packet x {
+    @rightPad()
+    repeat roots Logon `doc`,
+}")).
+Eval vm_compute in ("<<<M509>>>" ++ check (runes_of_ascii "root packet i64_ {tag
+Pad, } root packet
+    charz {
+}")).
+Eval vm_compute in ("<<<M1431>>>" ++ check (runes_of_ascii "
+packet
+    falsey { Header@calculatedFrom(""packet""")).
+Eval vm_compute in ("<<<M66>>>" ++ check (runes_of_ascii "// c
+MetaData calculatedFrom {Foo msg_type ,
+}
 ")).
-Eval vm_compute in ("<<<M2358>>>" ++ check (runes_of_ascii "// c
-packet x { @lengthOf( metadata )")).
-Eval vm_compute in ("<<<M244>>>" ++ check (runes_of_ascii "
-packet/// triple
-packetx {
-} // " ++ [27880; 37322]%N)).
-Eval vm_compute in ("<<<M2592>>>" ++ check (runes_of_ascii "packet A { x @calculatedFrom(c), }")).
-Eval vm_compute in ("<<<M3926>>>" ++ check (runes_of_ascii "
+Eval vm_compute in ("<<<M810>>>" ++ check (runes_of_ascii "options
+//	t
+// @lengthOf(
+{
+roots
+=""" ++ [28040; 24687]%N ++ runes_of_ascii """
+; }")).
+Eval vm_compute in ("<<<M2713>>>" ++ check (runes_of_ascii "i32 @leftPad '0' f64 as root ; } root int64")).
+Eval vm_compute in ("<<<M3844>>>" ++ check (runes_of_ascii "options {
+    repeatCount = 3/// triple
+}")).
+Eval vm_compute in ("<<<M4260>>>" ++ check (runes_of_ascii "
+//
+  options{
+    Z9_=
+	65535
+    ;
+}
+")).
+Eval vm_compute in ("<<<M2672>>>" ++ check (runes_of_ascii "options { a = 1; } options { a = 1; }")).
+Eval vm_compute in ("<<<M799>>>" ++ check (runes_of_ascii "//
 options {
-
-    u =
-
-string  }
+    Z9_  =	65535; } 	 ")).
+Eval vm_compute in ("<<<M2789>>>" ++ check (runes_of_ascii "= packet = ) repeat repeat options")).
+Eval vm_compute in ("<<<M2566>>>" ++ check (runes_of_ascii "packet A { repeat repeat u8 x, }")).
+Eval vm_compute in ("<<<M41>>>" ++ check (runes_of_ascii "MetaData crc
+{ } // @lengthOf(")).
+Eval vm_compute in ("<<<M3965>>>" ++ check (runes_of_ascii "MetaData u8x {
+    a1 float,
+}")).
+Eval vm_compute in ("<<<M314>>>" ++ check (runes_of_ascii "MetaData roots	{ u Logon ,}")).
+Eval vm_compute in ("<<<M2595>>>" ++ check (runes_of_ascii "packet A { x @leftPad(), }")).
+Eval vm_compute in ("<<<M3261>>>" ++ check (runes_of_ascii "root packet pack {
+// c
+}")).
+Eval vm_compute in ("<<<M2593>>>" ++ check (runes_of_ascii "packet A { x @tag(1), }")).
+Eval vm_compute in ("<<<M2772>>>" ++ check (runes_of_ascii "5rg/0~r2x>%:GDBld$X~A")).
+Eval vm_compute in ("<<<M268>>>" ++ check (runes_of_ascii "  packet
+chars	{ }
 ")).
-Eval vm_compute in ("<<<M2735>>>" ++ check (runes_of_ascii ") char[] ] @leftPad ; f64 uint8")).
-Eval vm_compute in ("<<<M3122>>>" ++ check (runes_of_ascii "packet A {
- u8 x `d" ++ [12]%N ++ runes_of_ascii "`, // c" ++ [12]%N ++ runes_of_ascii "
+Eval vm_compute in ("<<<M3477>>>" ++ check (runes_of_ascii "MetaData o {
+// c
 }")).
-Eval vm_compute in ("<<<M4571>>>" ++ check (runes_of_ascii "options {
-    Logon = ' ';
-}")).
-Eval vm_compute in ("<<<M2594>>>" ++ check (runes_of_ascii "packet A { u8 x @tag(1), }")).
-Eval vm_compute in ("<<<M3260>>>" ++ check (runes_of_ascii "root packet pack { // c
-}")).
-Eval vm_compute in ("<<<M2782>>>" ++ check (runes_of_ascii ", char[] ) MetaData u32")).
-Eval vm_compute in ("<<<M4514>>>" ++ check (runes_of_ascii "// top
-MetaData o {
-}")).
-Eval vm_compute in ("<<<M2540>>>" ++ check (runes_of_ascii ": , ; = ( ) [ ] { }")).
-Eval vm_compute in ("<<<M149>>>" ++ check (runes_of_ascii "packet	crc
-    { }")).
-Eval vm_compute in ("<<<M3111>>>" ++ check (runes_of_ascii "// c" ++ [8287]%N ++ runes_of_ascii "
+Eval vm_compute in ("<<<M3106>>>" ++ check (runes_of_ascii "// c" ++ [8239]%N ++ runes_of_ascii "
 packet A {
 }")).
-Eval vm_compute in ("<<<M2796>>>" ++ check (runes_of_ascii "p08:'V`g3?Q~EbZ,T")).
+Eval vm_compute in ("<<<M2685>>>" ++ check (runes_of_ascii "// only a comment")).
 Eval vm_compute in ("<<<M2661>>>" ++ check (runes_of_ascii "options { = 1; }")).
-Eval vm_compute in ("<<<M1129>>>" ++ check (runes_of_ascii "MetaData
-o{ }")).
-Eval vm_compute in ("<<<M2751>>>" ++ check ([65533; 65533]%N ++ runes_of_ascii "Q" ++ [65533; 65533; 2]%N ++ runes_of_ascii "l" ++ [65533]%N ++ runes_of_ascii "o" ++ [65533]%N ++ runes_of_ascii "Y")).
-Eval vm_compute in ("<<<M2465>>>" ++ check (runes_of_ascii "Metadata")).
-Eval vm_compute in ("<<<M4298>>>" ++ check (runes_of_ascii "// c" ++ [8232]%N ++ runes_of_ascii "
-")).
-Eval vm_compute in ("<<<M2433>>>" ++ check (runes_of_ascii "char1")).
-Eval vm_compute in ("<<<M3139>>>" ++ check (runes_of_ascii "// c" ++ [6158]%N)).
-Eval vm_compute in ("<<<M4178>>>" ++ check (runes_of_ascii "//	t")).
-Eval vm_compute in ("<<<M2680>>>" ++ check (runes_of_ascii "`d`")).
-Eval vm_compute in ("<<<M2477>>>" ++ check (runes_of_ascii "'")).
+Eval vm_compute in ("<<<M423>>>" ++ check (runes_of_ascii "
+ /// triple")).
+Eval vm_compute in ("<<<M2488>>>" ++ check (runes_of_ascii "@lengthOf (")).
+Eval vm_compute in ("<<<M2480>>>" ++ check (runes_of_ascii "@leftPad")).
+Eval vm_compute in ("<<<M2442>>>" ++ check (runes_of_ascii "uint88")).
+Eval vm_compute in ("<<<M2485>>>" ++ check (runes_of_ascii "@left")).
+Eval vm_compute in ("<<<M2445>>>" ++ check (runes_of_ascii "i8i8")).
+Eval vm_compute in ("<<<M2475>>>" ++ check (runes_of_ascii "'1'")).
+Eval vm_compute in ("<<<M2440>>>" ++ check (runes_of_ascii "u8")).
+Eval vm_compute in ("<<<M2676>>>" ++ check (runes_of_ascii "x")).
